@@ -1,9 +1,16 @@
 (* OnceProof: proofs about Model/OnceModel.v (nsync_run_once and friends), used by Props/Properties_C07.v.
-   One inductive invariant over [run]: every once word is in one of three states
-     A  once=0, runs=0, not completed, nobody between CAS and store
-     B  once=1, runs=1, not completed, exactly one thread between its CAS and its store (the winner)
-     C  once=2, runs=1, completed,     nobody between CAS and store
-   plus: early = 0; every returned call's object is completed; a thread in the wait loop has seen a non-zero word.
+   One inductive invariant [Inv] over [run], for ANY environment (map once -> slot, termination of the functions,
+   obtainability of the locks):
+     per object   once=0: no CAS won, f not begun;  once=1: exactly one thread won the CAS and is between the CAS and
+                  its store, and the ghosts fbeg / completed agree with where that thread is (f not entered / inside f /
+                  f returned);  once=2: CAS won once, f begun once, f completed;
+     per thread   what it returned from is done (once=2); a thread in the wait loop has seen a non-zero word; a
+                  thread at a pc inside the once_mu critical section holds the once_mu of its object's slot; the
+                  call being executed is the one the pc belongs to (lock / cv pcs: a blocking call);
+     per slot     the holder of once_mu is at such a pc of an object of that slot (mutual exclusion);
+     early = 0.
+   Then the progress measure [rank] (Model/OnceModel.v): in every reachable world that is not finished some thread has
+   a step that decreases it, provided the functions terminate and the locks are obtainable ([env_ok]).
    No axioms, nothing admitted. *)
 From NsyncBase Require Import CSem.
 From NsyncGen Require Import Consts Sites.
@@ -29,27 +36,50 @@ Definition step_core (w : world) (t : nat) : world * ev :=
   | OImplLoad o sp =>
       let v := once w o in
       if negb (v =? 2)
-      then (if negb (v =? 2) && (v =? 0) then (set_pc w t (OCas o sp), EvLoad 11 v)
-            else (set_pc w t (OWaitLoad o sp), EvLoad 11 v))
+      then (let z := negb (v =? 2) && (v =? 0) in
+            if sp then (set_pc w t (if z then OCas o sp else OWaitLoad o sp), EvLoad 11 v)
+            else (set_pc w t (OLock o z), EvLoad 11 v))
       else (ret w t o, EvLoad 11 v)
+  | OLock o z => do_lock w t o (if z then OCas o false else OWaitLoad o false)
   | OCas o sp =>
       if once w o =? 0
-      then (mk_w (fupd (once w) o 1) (fupd (runs w) o (runs w o + 1)) (completed w) (early w)
-                 (lupd (thr w) t (mk_t (ORunning o sp) (calls (get w t)) (returned (get w t)))), EvCas 12 true)
+      then (mk_w (cfg w) (fupd (once w) o 1) (mu w) (fupd (wins w) o (t :: wins w o)) (fbeg w)
+                 (completed w) (early w)
+                 (lupd (thr w) t (with_pc (get w t) (if sp then OFBegin o sp else OWinUnlock o))), EvCas 12 true)
       else (set_pc w t (OReload o sp), EvCas 12 false)
   | OReload o sp =>
       let v := once w o in
       if v =? 0 then (set_pc w t (OCas o sp), EvLoad 13 v) else (set_pc w t (OWaitLoad o sp), EvLoad 13 v)
-  | ORunning o sp =>
-      (mk_w (fupd (once w) o 2) (runs w) (fupd (completed w) o true) (early w)
-            (lupd (thr w) t (mk_t (OWaitLoad o sp) (calls (get w t)) (returned (get w t)))), EvStore 14 2)
+  | OWinUnlock o => do_unlock w t o (OFBegin o false)
+  | OFBegin o sp =>
+      (mk_w (cfg w) (once w) (mu w) (wins w) (fupd (fbeg w) o (t :: fbeg w o)) (completed w) (early w)
+            (lupd (thr w) t (with_pc (get w t) (OFRun o sp))), EvFBegin o)
+  | OFRun o sp =>
+      if fterm (cfg w) o
+      then (mk_w (cfg w) (once w) (mu w) (wins w) (fbeg w) (fupd (completed w) o true) (early w)
+                 (lupd (thr w) t (with_pc (get w t) (if sp then OStore o sp else OWinLock o))), EvFEnd o)
+      else (w, EvFStuck o)
+  | OWinLock o => do_lock w t o (OBroadcast o)
+  | OBroadcast o => (set_pc w t (OStore o false), EvBroadcast (slot_of w o))
+  | OStore o sp =>
+      (mk_w (cfg w) (fupd (once w) o 2) (mu w) (wins w) (fbeg w) (completed w) (early w)
+            (lupd (thr w) t (with_pc (get w t) (OWaitLoad o sp))), EvStore 14 2)
   | OWaitLoad o sp =>
       let v := once w o in
-      if v =? 2 then (ret w t o, EvLoad 15 v) else (w, EvLoad 15 v)
+      if v =? 2 then (if sp then ret w t o else set_pc w t (OFinalUnlock o), EvLoad 15 v)
+      else (set_pc w t (if sp then OSpin o else OCvEnter o), EvLoad 15 v)
+  | OCvEnter o => let s := slot_of w o in (set_pc (set_mu w s None) t (OCvWait o), EvCvRelease s)
+  | OCvWait o => (set_pc w t (OCvReacq o), EvCvEnd (slot_of w o))
+  | OCvReacq o => do_lock w t o (OWaitLoad o false)
+  | OSpin o => (set_pc w t (OWaitLoad o true), EvSpin)
+  | OFinalUnlock o =>
+      let s := slot_of w o in (ret (set_mu w s None) t o, EvUnlock s)
   end.
 
+Lemma step_pc_eq w t : step_pc w t = step_core w t.
+Proof. unfold step_pc, step_core. destruct (pc (get w t)); reflexivity. Qed.
 Lemma step_eq w t : step w t = step_core (begin_call w t) t.
-Proof. reflexivity. Qed.
+Proof. unfold step. apply step_pc_eq. Qed.
 
 (* ---------- lists and maps ---------- *)
 Lemma length_lupd {A} (l : list A) k v : length (lupd l k v) = length l.
@@ -88,25 +118,26 @@ Proof.
   rewrite get_oob in H by lia. cbn in H. congruence.
 Qed.
 
-Lemma get_upd_same w t on ru co ea s :
-  (t < length (thr w))%nat -> get (mk_w on ru co ea (lupd (thr w) t s)) t = s.
+Lemma get_upd_same w t c on m wi fb co ea s :
+  (t < length (thr w))%nat -> get (mk_w c on m wi fb co ea (lupd (thr w) t s)) t = s.
 Proof. intros. unfold get. cbn [thr]. now apply nth_lupd_same. Qed.
-Lemma get_upd_other w t on ru co ea s t' :
-  t' <> t -> get (mk_w on ru co ea (lupd (thr w) t s)) t' = get w t'.
+Lemma get_upd_other w t c on m wi fb co ea s t' :
+  t' <> t -> get (mk_w c on m wi fb co ea (lupd (thr w) t s)) t' = get w t'.
 Proof. intros. unfold get. cbn [thr]. now apply nth_lupd_other. Qed.
 
 Lemma get_ret_same w t o : (t < length (thr w))%nat ->
-  get (ret w t o) t = mk_t OIdle (calls (get w t)) (o :: returned (get w t)).
+  get (ret w t o) t = mk_t OIdle (cur (get w t)) (calls (get w t)) (o :: returned (get w t)).
 Proof. intros. unfold ret. now apply get_upd_same. Qed.
 Lemma get_set_pc_same w t p : (t < length (thr w))%nat ->
-  get (set_pc w t p) t = mk_t p (calls (get w t)) (returned (get w t)).
-Proof. intros. unfold set_pc. now apply get_upd_same. Qed.
+  get (set_pc w t p) t = with_pc (get w t) p.
+Proof. intros. unfold set_pc, set_thr. now apply get_upd_same. Qed.
+Lemma get_set_mu w s h t : get (set_mu w s h) t = get w t.
+Proof. reflexivity. Qed.
 
 Lemma begin_call_cases w t :
   (begin_call w t = w /\ (pc (get w t) <> OIdle \/ calls (get w t) = [])) \/
   (exists o sp rest, pc (get w t) = OIdle /\ calls (get w t) = (o, sp) :: rest /\
-     begin_call w t = mk_w (once w) (runs w) (completed w) (early w)
-                           (lupd (thr w) t (mk_t (OEntry o sp) rest (returned (get w t))))).
+     begin_call w t = set_thr w (lupd (thr w) t (mk_t (OEntry o sp) (Some (o, sp)) rest (returned (get w t))))).
 Proof.
   unfold begin_call.
   destruct (pc (get w t)) eqn:Hpc; try (left; split; [reflexivity | left; discriminate]).
@@ -116,256 +147,500 @@ Proof.
 Qed.
 
 (* ---------- the invariant ---------- *)
-Definition norun (w : world) (o : nat) : Prop := forall t sp, pc (get w t) <> ORunning o sp.
+(* the call a pc belongs to *)
+Definition pc_call (p : opc) : option (nat * bool) :=
+  match p with
+  | OIdle => None
+  | OEntry o sp | OImplLoad o sp | OCas o sp | OReload o sp | OFBegin o sp | OFRun o sp | OStore o sp | OWaitLoad o sp => Some (o, sp)
+  | OLock o _ | OWinUnlock o | OWinLock o | OBroadcast o | OCvEnter o | OCvWait o | OCvReacq o | OFinalUnlock o => Some (o, false)
+  | OSpin o => Some (o, true)
+  end.
+(* pcs reached only after the word was seen non-zero *)
+Definition loser_pc (p : opc) : option nat :=
+  match p with
+  | OLock o false | OReload o _ | OWaitLoad o _ | OCvEnter o | OCvWait o | OCvReacq o | OSpin o | OFinalUnlock o => Some o
+  | _ => None
+  end.
+(* the winner's pcs: object, f begun, f completed *)
+Definition win_info (p : opc) : option (nat * bool * bool) :=
+  match p with
+  | OWinUnlock o | OFBegin o _ => Some (o, false, false)
+  | OFRun o _ => Some (o, true, false)
+  | OWinLock o | OBroadcast o | OStore o _ => Some (o, true, true)
+  | _ => None
+  end.
+
+Lemma win_pc_info o p : win_pc o p <-> exists b c, win_info p = Some (o, b, c).
+Proof.
+  unfold win_pc. split.
+  - intros [->|[[sp ->]|[[sp ->]|[->|[->|[sp ->]]]]]]; cbn; eauto.
+  - intros (b & c & H). destruct p; cbn in H; try discriminate; injection H as <- _ _; eauto 10.
+Qed.
+
+Record tinv (w : world) (t : nat) (s : tstate) : Prop := {
+  ti_cur : pc s <> OIdle -> cur s = pc_call (pc s);
+  ti_ret : forall o, In o (returned s) -> once w o = 2;
+  ti_lose : forall o, loser_pc (pc s) = Some o -> once w o <> 0;
+  ti_fin : forall o, pc s = OFinalUnlock o -> once w o = 2;
+  ti_hold : forall o, holds_pc (pc s) = Some o -> mu w (slot_of w o) = Some t;
+  ti_win : forall o b c, win_info (pc s) = Some (o, b, c) ->
+             wins w o = [t] /\ once w o = 1 /\ fbeg w o = (if b then [t] else []) /\ completed w o = c }.
+
 Definition objst (w : world) (o : nat) : Prop :=
-  (once w o = 0 /\ runs w o = 0 /\ completed w o = false /\ norun w o) \/
-  (once w o = 1 /\ runs w o = 1 /\ completed w o = false /\
-     exists t, winner_of w o t /\ forall t', winner_of w o t' -> t' = t) \/
-  (once w o = 2 /\ runs w o = 1 /\ completed w o = true /\ norun w o).
+  (once w o = 0 /\ wins w o = [] /\ fbeg w o = [] /\ completed w o = false) \/
+  (once w o = 1 /\ exists tw, wins w o = [tw] /\ (tw < length (thr w))%nat /\
+                              exists b c, win_info (pc (get w tw)) = Some (o, b, c)) \/
+  (once w o = 2 /\ exists tw, wins w o = [tw] /\ fbeg w o = [tw] /\ completed w o = true).
 
 Record Inv (w : world) : Prop := {
+  inv_thr : forall t, tinv w t (get w t);
+  inv_mu : forall s h, mu w s = Some h ->
+             (h < length (thr w))%nat /\ exists o, holds_pc (pc (get w h)) = Some o /\ slot_of w o = s;
   inv_obj : forall o, objst w o;
-  inv_early : early w = 0;
-  inv_ret : forall t o, In o (returned (get w t)) -> completed w o = true;
-  inv_wait : forall t o sp, pc (get w t) = OWaitLoad o sp -> once w o <> 0 }.
+  inv_early : early w = 0 }.
+
+Lemma tinv_dflt w t : tinv w t dflt.
+Proof. split; cbn; try discriminate; try contradiction; congruence. Qed.
 
 Lemma done_completed w o : Inv w -> once w o = 2 -> completed w o = true.
 Proof.
-  intros I H. destruct (inv_obj w I o) as [(a&_)|[(a&_)|(_&_&c&_)]]; auto; lia.
+  intros I H. destruct (inv_obj w I o) as [(a&_)|[(a&_)|(_&tw&_&_&c)]]; auto; lia.
 Qed.
 
-(* a step that only touches thread t's own record; t neither was nor becomes a winner *)
-Lemma inv_local w t s' :
+(* no winner on a word that is not 1 *)
+Lemma win_once1 w t o b c : Inv w -> win_info (pc (get w t)) = Some (o, b, c) -> once w o = 1.
+Proof. intros I H. destruct (ti_win _ _ _ (inv_thr w I t) o b c H) as (_ & H1 & _). exact H1. Qed.
+
+(* the general update: thread t (in range) replaces its record, and the shared fields change in a way that the other
+   threads do not notice *)
+Lemma inv_update w t on' mu' wi' fb' co' ea' s' :
   Inv w -> (t < length (thr w))%nat ->
-  (forall o sp, pc (get w t) <> ORunning o sp) ->
-  (forall o sp, pc s' <> ORunning o sp) ->
-  (forall o sp, pc s' = OWaitLoad o sp -> once w o <> 0) ->
-  (forall o, In o (returned s') -> completed w o = true) ->
-  Inv (mk_w (once w) (runs w) (completed w) (early w) (lupd (thr w) t s')).
+  let w' := mk_w (cfg w) on' mu' wi' fb' co' ea' (lupd (thr w) t s') in
+  (forall o, once w o = 2 -> on' o = 2) ->
+  (forall o, once w o <> 0 -> on' o <> 0) ->
+  (forall t' o, t' <> t -> holds_pc (pc (get w t')) = Some o -> mu' (slot_of w o) = Some t') ->
+  (forall t' o b c, t' <> t -> win_info (pc (get w t')) = Some (o, b, c) ->
+     wi' o = wins w o /\ on' o = once w o /\ fb' o = fbeg w o /\ co' o = completed w o) ->
+  tinv w' t s' ->
+  (forall s h, mu' s = Some h ->
+     (h = t /\ exists o, holds_pc (pc s') = Some o /\ slot_of w o = s) \/ (h <> t /\ mu w s = Some h)) ->
+  (forall o, objst w' o) ->
+  ea' = 0 ->
+  Inv w'.
 Proof.
-  intros [Ho He Hr Hw] Hlt Hnr Hnr' Hwt Hrt.
-  set (w' := mk_w (once w) (runs w) (completed w) (early w) (lupd (thr w) t s')).
+  intros I Hlt w' H2 H0 Hmu Hwin Hs Hm Hobj He.
   assert (Gs : get w' t = s') by (apply get_upd_same; auto).
   assert (Go : forall t', t' <> t -> get w' t' = get w t') by (intros; apply get_upd_other; auto).
-  assert (NR : forall o, norun w o -> norun w' o).
-  { intros o d t' sp'. destruct (Nat.eq_dec t' t) as [->|n].
-    - rewrite Gs. apply Hnr'.
-    - rewrite Go by auto. apply d. }
   split.
-  - intro o. destruct (Ho o) as [(a&b&c&d)|[(a&b&c&(t1&[sp W]&U))|(a&b&c&d)]].
-    + left. repeat split; auto.
-    + right; left. repeat split; auto. exists t1.
-      assert (t1 <> t) by (intros ->; eapply Hnr; eauto).
-      split.
-      * exists sp. rewrite Go; auto.
-      * intros t' [sp' W']. apply U. destruct (Nat.eq_dec t' t) as [->|n].
-        -- rewrite Gs in W'. exfalso; eapply Hnr'; eauto.
-        -- rewrite Go in W' by auto. exists sp'; auto.
-    + right; right. repeat split; auto.
+  - intros t'. destruct (Nat.eq_dec t' t) as [->|n].
+    + rewrite Gs. exact Hs.
+    + rewrite Go by auto. destruct (inv_thr w I t') as [T1 T2 T3 T4 T5 T6]. split.
+      * exact T1.
+      * intros o Hin. apply H2. auto.
+      * intros o Hl. apply H0. auto.
+      * intros o Hf. apply H2. auto.
+      * intros o Hh. exact (Hmu t' o n Hh).
+      * intros o b c Hw. unfold w'. cbn [once wins fbeg completed]. destruct (Hwin t' o b c n Hw) as (-> & -> & -> & ->). auto.
+  - intros s h Hh. assert (Hlen : length (thr w') = length (thr w)) by (unfold w'; cbn [thr]; apply length_lupd).
+    rewrite Hlen.
+    destruct (Hm s h Hh) as [[-> (o & Ho & Hsl)]|[n Hold]].
+    + split; auto. exists o. rewrite Gs. auto.
+    + destruct (inv_mu w I s h Hold) as [Hr (o & Ho & Hsl)]. split; auto.
+      exists o. rewrite Go by auto. auto.
+  - exact Hobj.
   - exact He.
-  - intros t' o. destruct (Nat.eq_dec t' t) as [->|n].
-    + rewrite Gs. apply Hrt.
-    + rewrite Go by auto. apply Hr.
-  - intros t' o sp. destruct (Nat.eq_dec t' t) as [->|n].
-    + rewrite Gs. apply Hwt.
-    + rewrite Go by auto. apply Hw.
 Qed.
 
+(* an object none of whose fields changes stays in its state, provided that t, if it was its winner, still is *)
+Lemma objst_keep w t on' mu' wi' fb' co' ea' s' o :
+  Inv w -> (t < length (thr w))%nat ->
+  on' o = once w o -> wi' o = wins w o -> fb' o = fbeg w o -> co' o = completed w o ->
+  (forall b c, win_info (pc (get w t)) = Some (o, b, c) -> exists b' c', win_info (pc s') = Some (o, b', c')) ->
+  objst (mk_w (cfg w) on' mu' wi' fb' co' ea' (lupd (thr w) t s')) o.
+Proof.
+  intros I Hlt E1 E2 E3 E4 Hw. unfold objst. cbn [once wins fbeg completed thr]. rewrite E1, E2, E3, E4, length_lupd.
+  destruct (inv_obj w I o) as [A|[(a & tw & b & c & bb & cc & Hi)|C]]; [left; exact A| |right; right; exact C].
+  right; left. split; [exact a|]. exists tw. split; [exact b|]. split; [exact c|].
+  destruct (Nat.eq_dec tw t) as [->|n].
+  - rewrite get_upd_same by auto. eapply Hw; eauto.
+  - rewrite get_upd_other by auto. eauto.
+Qed.
+
+(* the same for an object whose word is 1 and stays 1: the ghosts fbeg / completed may change *)
+Lemma objst_keep1 w t on' mu' wi' fb' co' ea' s' o :
+  Inv w -> (t < length (thr w))%nat ->
+  once w o = 1 -> on' o = 1 -> wi' o = wins w o ->
+  (forall b c, win_info (pc (get w t)) = Some (o, b, c) -> exists b' c', win_info (pc s') = Some (o, b', c')) ->
+  objst (mk_w (cfg w) on' mu' wi' fb' co' ea' (lupd (thr w) t s')) o.
+Proof.
+  intros I Hlt O1 E1 E2 Hw. unfold objst. cbn [once wins fbeg completed thr]. rewrite E1, E2, length_lupd.
+  destruct (inv_obj w I o) as [(a&_)|[(a & tw & b & c & bb & cc & Hi)|(a&_)]]; try lia.
+  right; left. split; [reflexivity|]. exists tw. split; [exact b|]. split; [exact c|].
+  destruct (Nat.eq_dec tw t) as [->|n].
+  - rewrite get_upd_same by auto. eapply Hw; eauto.
+  - rewrite get_upd_other by auto. eauto.
+Qed.
+
+(* --- the kinds of steps --- *)
+
+(* only the pc of t changes; t keeps what it holds and what it has won *)
 Lemma inv_set_pc w t p :
   Inv w -> (t < length (thr w))%nat ->
-  (forall o sp, pc (get w t) <> ORunning o sp) ->
-  (forall o sp, p <> ORunning o sp) ->
-  (forall o sp, p = OWaitLoad o sp -> once w o <> 0) ->
+  p <> OIdle -> pc_call p = pc_call (pc (get w t)) -> pc (get w t) <> OIdle ->
+  (forall o, loser_pc p = Some o -> once w o <> 0) ->
+  (forall o, p = OFinalUnlock o -> once w o = 2) ->
+  holds_pc p = holds_pc (pc (get w t)) ->
+  win_info p = win_info (pc (get w t)) ->
   Inv (set_pc w t p).
 Proof.
-  intros I Hlt Hnr Hp Hwt. unfold set_pc. apply inv_local; auto.
-  cbn [returned]. intros o. apply (inv_ret w I).
+  intros I Hlt Hp Hc Hni Hl Hf Hh Hw. unfold set_pc, set_thr.
+  destruct (inv_thr w I t) as [T1 T2 T3 T4 T5 T6].
+  apply inv_update; auto.
+  - intros t' o _ H. exact (ti_hold _ _ _ (inv_thr w I t') o H).
+  - split; cbn [pc cur returned with_pc once mu wins fbeg completed slot_of cfg]; auto.
+    + intros _. rewrite Hc. auto.
+    + intros o. rewrite Hh. apply T5.
+    + intros o b c. rewrite Hw. apply T6.
+  - intros s h Hs. destruct (Nat.eq_dec h t) as [->|n]; [left|right; auto].
+    split; auto. destruct (inv_mu w I s t Hs) as [_ (o & Ho & Hsl)]. exists o. cbn [pc with_pc]. rewrite Hh. auto.
+  - intros o. apply objst_keep; auto. intros b c H. cbn [pc with_pc]. rewrite Hw. eauto.
+  - apply (inv_early w I).
 Qed.
 
+(* a call on o returns from a pc that holds nothing and has won nothing; the word is 2 *)
 Lemma inv_do_ret w t o :
   Inv w -> (t < length (thr w))%nat ->
-  (forall o sp, pc (get w t) <> ORunning o sp) ->
+  holds_pc (pc (get w t)) = None -> win_info (pc (get w t)) = None ->
   once w o = 2 ->
   Inv (ret w t o).
 Proof.
-  intros I Hlt Hnr H2. unfold ret. rewrite (done_completed w o I H2).
-  apply inv_local; auto; cbn [pc returned]; try discriminate.
-  intros o' [<-|Hin].
-  - apply done_completed; auto.
-  - eapply (inv_ret w I); eauto.
+  intros I Hlt Hh Hw H2. unfold ret. rewrite (done_completed w o I H2).
+  destruct (inv_thr w I t) as [T1 T2 T3 T4 T5 T6].
+  apply inv_update; auto.
+  - intros t' o' _ H. exact (ti_hold _ _ _ (inv_thr w I t') o' H).
+  - split; cbn [pc cur returned once mu wins fbeg completed slot_of cfg]; try discriminate; try congruence.
+    intros o' [<-|Hin]; auto.
+  - intros s h Hs. right. split; auto. intros ->.
+    destruct (inv_mu w I s t Hs) as [_ (o' & Ho & _)]. congruence.
+  - intros o'. apply objst_keep; auto. intros b c H. congruence.
+  - apply (inv_early w I).
+Qed.
+
+(* nsync_mu_lock succeeds *)
+Lemma inv_lock w t o p :
+  Inv w -> (t < length (thr w))%nat ->
+  mu w (slot_of w o) = None -> holds_pc (pc (get w t)) = None ->
+  p <> OIdle -> pc_call p = pc_call (pc (get w t)) -> pc (get w t) <> OIdle ->
+  (forall o', loser_pc p = Some o' -> once w o' <> 0) ->
+  (forall o', p <> OFinalUnlock o') ->
+  holds_pc p = Some o ->
+  win_info p = win_info (pc (get w t)) ->
+  Inv (set_pc (set_mu w (slot_of w o) (Some t)) t p).
+Proof.
+  intros I Hlt Hfree Hnh Hp Hc Hni Hl Hf Hh Hw. unfold set_pc, set_thr. rewrite get_set_mu. unfold set_mu. cbn [cfg once mu wins fbeg completed early thr].
+  destruct (inv_thr w I t) as [T1 T2 T3 T4 T5 T6].
+  apply inv_update; auto.
+  - intros t' o' n H. pose proof (ti_hold _ _ _ (inv_thr w I t') o' H) as Hm.
+    rewrite fupd_other; auto. intros E. rewrite E in Hm. congruence.
+  - split; cbn [pc cur returned with_pc once mu wins fbeg completed slot_of cfg]; auto.
+    + intros _. rewrite Hc. auto.
+    + intros o' E. exfalso. eapply Hf; eauto.
+    + intros o'. rewrite Hh. intros E. injection E as <-. apply fupd_same.
+    + intros o' b c. rewrite Hw. apply T6.
+  - intros s h. unfold fupd. destruct (Nat.eqb_spec s (slot_of w o)) as [->|ns].
+    + intros E. injection E as <-. left. split; auto. exists o. auto.
+    + intros Hs. right. split; auto. intros ->.
+      destruct (inv_mu w I s t Hs) as [_ (o' & Ho & Hsl)].
+      congruence.
+  - intros o'. apply objst_keep; auto. intros b c H. cbn [pc with_pc]. rewrite Hw. eauto.
+  - apply (inv_early w I).
+Qed.
+
+(* nsync_mu_unlock (also the release at the beginning of the cv wait) *)
+Lemma inv_unlock w t o p :
+  Inv w -> (t < length (thr w))%nat ->
+  holds_pc (pc (get w t)) = Some o ->
+  p <> OIdle -> pc_call p = pc_call (pc (get w t)) ->
+  (forall o', loser_pc p = Some o' -> once w o' <> 0) ->
+  (forall o', p <> OFinalUnlock o') ->
+  holds_pc p = None ->
+  win_info p = win_info (pc (get w t)) ->
+  Inv (set_pc (set_mu w (slot_of w o) None) t p).
+Proof.
+  intros I Hlt Hold Hp Hc Hl Hf Hh Hw. unfold set_pc, set_thr. rewrite get_set_mu. unfold set_mu. cbn [cfg once mu wins fbeg completed early thr].
+  destruct (inv_thr w I t) as [T1 T2 T3 T4 T5 T6].
+  assert (Hni : pc (get w t) <> OIdle) by (intros E; rewrite E in Hold; discriminate).
+  apply inv_update; auto.
+  - intros t' o' n H. pose proof (ti_hold _ _ _ (inv_thr w I t') o' H) as Hm.
+    rewrite fupd_other; auto. intros E. rewrite E in Hm. rewrite (T5 o Hold) in Hm. congruence.
+  - split; cbn [pc cur returned with_pc once mu wins fbeg completed slot_of cfg]; auto.
+    + intros _. rewrite Hc. auto.
+    + intros o' E. exfalso. eapply Hf; eauto.
+    + intros o'. rewrite Hh. discriminate.
+    + intros o' b c. rewrite Hw. apply T6.
+  - intros s h. unfold fupd. destruct (Nat.eqb_spec s (slot_of w o)) as [->|ns]; [discriminate|].
+    intros Hs. right. split; auto. intros ->.
+    destruct (inv_mu w I s t Hs) as [_ (o' & Ho & Hsl)].
+    rewrite Hold in Ho. injection Ho as <-. congruence.
+  - intros o'. apply objst_keep; auto. intros b c H. cbn [pc with_pc]. rewrite Hw. eauto.
+  - apply (inv_early w I).
+Qed.
+
+(* the final unlock and the return *)
+Lemma inv_final w t o :
+  Inv w -> (t < length (thr w))%nat -> pc (get w t) = OFinalUnlock o ->
+  Inv (ret (set_mu w (slot_of w o) None) t o).
+Proof.
+  intros I Hlt Hpc. unfold ret. rewrite get_set_mu. unfold set_mu. cbn [cfg once mu wins fbeg completed early thr].
+  destruct (inv_thr w I t) as [T1 T2 T3 T4 T5 T6].
+  pose proof (T4 o Hpc) as H2. rewrite (done_completed w o I H2).
+  assert (Hold : holds_pc (pc (get w t)) = Some o) by (rewrite Hpc; reflexivity).
+  apply inv_update; auto.
+  - intros t' o' n H. pose proof (ti_hold _ _ _ (inv_thr w I t') o' H) as Hm.
+    rewrite fupd_other; auto. intros E. rewrite E in Hm. rewrite (T5 o Hold) in Hm. congruence.
+  - split; cbn [pc cur returned once mu wins fbeg completed slot_of cfg]; try discriminate; try congruence.
+    intros o' [<-|Hin]; auto.
+  - intros s h. unfold fupd. destruct (Nat.eqb_spec s (slot_of w o)) as [->|ns]; [discriminate|].
+    intros Hs. right. split; auto. intros ->.
+    destruct (inv_mu w I s t Hs) as [_ (o' & Ho & Hsl)].
+    rewrite Hold in Ho. injection Ho as <-. congruence.
+  - intros o'. apply objst_keep; auto. intros b c H. rewrite Hpc in H. discriminate.
+  - apply (inv_early w I).
 Qed.
 
 (* the successful CAS *)
-Lemma inv_cas w t o sp c :
-  Inv w -> (t < length (thr w))%nat ->
-  (forall o sp, pc (get w t) <> ORunning o sp) ->
-  once w o = 0 ->
-  Inv (mk_w (fupd (once w) o 1) (fupd (runs w) o (runs w o + 1)) (completed w) (early w)
-            (lupd (thr w) t (mk_t (ORunning o sp) c (returned (get w t))))).
+Lemma inv_cas w t o sp :
+  Inv w -> (t < length (thr w))%nat -> pc (get w t) = OCas o sp -> once w o = 0 ->
+  Inv (mk_w (cfg w) (fupd (once w) o 1) (mu w) (fupd (wins w) o (t :: wins w o)) (fbeg w) (completed w) (early w)
+            (lupd (thr w) t (with_pc (get w t) (if sp then OFBegin o sp else OWinUnlock o)))).
 Proof.
-  intros I Hlt Hnr H0. destruct I as [Ho He Hr Hw].
-  set (w' := mk_w _ _ _ _ _).
-  assert (Gs : get w' t = mk_t (ORunning o sp) c (returned (get w t))) by (apply get_upd_same; auto).
-  assert (Go : forall t', t' <> t -> get w' t' = get w t') by (intros; apply get_upd_other; auto).
-  split.
-  - intro o'. destruct (Nat.eq_dec o' o) as [->|no].
-    + destruct (Ho o) as [(a&b&c0&d)|[(a&_)|(a&_)]]; try lia.
-      right; left. cbn [once runs completed w']. rewrite !fupd_same.
-      repeat split; auto; try lia.
-      exists t. split.
-      * exists sp. rewrite Gs. reflexivity.
-      * intros t' [sp' W']. destruct (Nat.eq_dec t' t) as [|n]; auto.
-        rewrite Go in W' by auto. exfalso; eapply d; eauto.
-    + assert (NR : norun w o' -> norun w' o').
-      { intros d t' sp'. destruct (Nat.eq_dec t' t) as [->|n].
-        - rewrite Gs. cbn [pc]. congruence.
-        - rewrite Go by auto. apply d. }
-      unfold objst. cbn [once runs completed w']. rewrite !fupd_other by auto.
-      destruct (Ho o') as [(a&b&c0&d)|[(a&b&c0&(t1&[sp1 W]&U))|(a&b&c0&d)]].
-      * left. repeat split; auto.
-      * right; left. repeat split; auto. exists t1.
-        assert (t1 <> t) by (intros ->; eapply Hnr; eauto).
-        split.
-        -- exists sp1. rewrite Go; auto.
-        -- intros t' [sp' W']. apply U. destruct (Nat.eq_dec t' t) as [->|n].
-           ++ rewrite Gs in W'. cbn [pc] in W'. congruence.
-           ++ rewrite Go in W' by auto. exists sp'; auto.
-      * right; right. repeat split; auto.
-  - exact He.
-  - intros t' o'. destruct (Nat.eq_dec t' t) as [->|n].
-    + rewrite Gs. cbn [returned completed w']. apply Hr.
-    + rewrite Go by auto. apply Hr.
-  - intros t' o' sp'. destruct (Nat.eq_dec t' t) as [->|n].
-    + rewrite Gs. cbn [pc]. discriminate.
-    + rewrite Go by auto. intros W. cbn [once w'].
-      destruct (Nat.eq_dec o' o) as [->|no].
-      * rewrite fupd_same. lia.
-      * rewrite fupd_other by auto. eapply Hw; eauto.
+  intros I Hlt Hpc H0.
+  destruct (inv_thr w I t) as [T1 T2 T3 T4 T5 T6].
+  assert (HA : wins w o = [] /\ fbeg w o = [] /\ completed w o = false).
+  { destruct (inv_obj w I o) as [(_&a&b&c)|[(a&_)|(a&_)]]; auto; lia. }
+  destruct HA as (Wi & Fb & Co).
+  apply inv_update; auto.
+  - intros o' H. destruct (Nat.eq_dec o' o) as [->|n]; [lia|]. rewrite fupd_other; auto.
+  - intros o' H. destruct (Nat.eq_dec o' o) as [->|n]; [rewrite fupd_same; lia|]. rewrite fupd_other; auto.
+  - intros t' o' _ H. exact (ti_hold _ _ _ (inv_thr w I t') o' H).
+  - intros t' o' b c _ H. pose proof (win_once1 w t' o' b c I H).
+    assert (o' <> o) by (intros ->; lia). rewrite !fupd_other; auto.
+  - rewrite Hpc in *. split; cbn [pc cur returned with_pc once mu wins fbeg completed slot_of cfg].
+    + intros _. rewrite T1 by discriminate. destruct sp; reflexivity.
+    + intros o' Hin. pose proof (T2 o' Hin). assert (o' <> o) by (intros ->; lia). rewrite fupd_other; auto.
+    + intros o'. destruct sp; discriminate.
+    + intros o'. destruct sp; discriminate.
+    + intros o'. destruct sp; cbn; [discriminate|]. intros E. injection E as <-. apply T5. reflexivity.
+    + intros o' b c E.
+      assert (E' : (o', b, c) = (o, false, false)) by (destruct sp; cbn in E; congruence).
+      injection E' as -> -> ->. rewrite !fupd_same, Wi, Fb, Co. auto.
+  - intros s h Hs. destruct (Nat.eq_dec h t) as [->|n]; [left|right; auto].
+    split; auto. destruct (inv_mu w I s t Hs) as [_ (o' & Ho & Hsl)]. rewrite Hpc in Ho.
+    destruct sp; cbn in Ho; [discriminate|]. injection Ho as <-. exists o. auto.
+  - intros o'. destruct (Nat.eq_dec o' o) as [->|n].
+    + right; left. cbn [once wins thr]. rewrite !fupd_same, Wi, length_lupd.
+      split; auto. exists t. split; auto. split; auto. rewrite get_upd_same by auto. cbn [pc with_pc].
+      destruct sp; cbn; eauto.
+    + apply objst_keep; auto; try (rewrite fupd_other; auto).
+      intros b c H. rewrite Hpc in H. discriminate.
+  - apply (inv_early w I).
 Qed.
 
-(* the winner's store *)
-Lemma inv_store w t o sp c :
-  Inv w -> (t < length (thr w))%nat ->
-  pc (get w t) = ORunning o sp ->
-  Inv (mk_w (fupd (once w) o 2) (runs w) (fupd (completed w) o true) (early w)
-            (lupd (thr w) t (mk_t (OWaitLoad o sp) c (returned (get w t))))).
+(* the winner enters f *)
+Lemma inv_fbegin w t o sp :
+  Inv w -> (t < length (thr w))%nat -> pc (get w t) = OFBegin o sp ->
+  Inv (mk_w (cfg w) (once w) (mu w) (wins w) (fupd (fbeg w) o (t :: fbeg w o)) (completed w) (early w)
+            (lupd (thr w) t (with_pc (get w t) (OFRun o sp)))).
 Proof.
-  intros I Hlt Hpc. destruct I as [Ho He Hr Hw].
-  set (w' := mk_w _ _ _ _ _).
-  assert (Gs : get w' t = mk_t (OWaitLoad o sp) c (returned (get w t))) by (apply get_upd_same; auto).
-  assert (Go : forall t', t' <> t -> get w' t' = get w t') by (intros; apply get_upd_other; auto).
-  assert (NR : forall o', norun w o' -> norun w' o').
-  { intros o' d t' sp'. destruct (Nat.eq_dec t' t) as [->|n].
-    - rewrite Gs. cbn [pc]. discriminate.
-    - rewrite Go by auto. apply d. }
-  assert (Cm : forall o', completed w o' = true -> completed w' o' = true).
-  { intros o' H. cbn [completed w']. destruct (Nat.eq_dec o' o) as [->|no].
-    - apply fupd_same.
-    - rewrite fupd_other; auto. }
-  split.
-  - intro o'. destruct (Nat.eq_dec o' o) as [->|no].
-    + destruct (Ho o) as [(a&b&c0&d)|[(a&b&c0&(t1&W&U))|(a&b&c0&d)]].
-      * exfalso; eapply d; eauto.
-      * right; right. cbn [once runs completed w']. rewrite !fupd_same.
-        repeat split; auto.
-        intros t' sp'. destruct (Nat.eq_dec t' t) as [->|n].
-        -- rewrite Gs. cbn [pc]. discriminate.
-        -- rewrite Go by auto. intros W'.
-           assert (t' = t1) by (apply U; exists sp'; auto).
-           assert (t = t1) by (apply U; exists sp; auto).
-           congruence.
-      * exfalso; eapply d; eauto.
-    + unfold objst. cbn [once runs completed w']. rewrite !fupd_other by auto.
-      destruct (Ho o') as [(a&b&c0&d)|[(a&b&c0&(t1&[sp1 W]&U))|(a&b&c0&d)]].
-      * left. repeat split; auto.
-      * right; left. repeat split; auto. exists t1.
-        assert (t1 <> t) by (intros ->; congruence).
-        split.
-        -- exists sp1. rewrite Go; auto.
-        -- intros t' [sp' W']. apply U. destruct (Nat.eq_dec t' t) as [->|n].
-           ++ rewrite Gs in W'. cbn [pc] in W'. discriminate.
-           ++ rewrite Go in W' by auto. exists sp'; auto.
-      * right; right. repeat split; auto.
-  - exact He.
-  - intros t' o' Hin. apply Cm. destruct (Nat.eq_dec t' t) as [->|n].
-    + rewrite Gs in Hin. cbn [returned] in Hin. eapply Hr; eauto.
-    + rewrite Go in Hin by auto. eapply Hr; eauto.
-  - intros t' o' sp' W. cbn [once w'].
-    destruct (Nat.eq_dec o' o) as [->|no].
-    + rewrite fupd_same. lia.
-    + rewrite fupd_other by auto.
-      destruct (Nat.eq_dec t' t) as [->|n].
-      * rewrite Gs in W. cbn [pc] in W. congruence.
-      * rewrite Go in W by auto. eapply Hw; eauto.
+  intros I Hlt Hpc.
+  destruct (inv_thr w I t) as [T1 T2 T3 T4 T5 T6].
+  destruct (T6 o false false) as (Wi & O1 & Fb & Co); [rewrite Hpc; reflexivity|].
+  apply inv_update; auto.
+  - intros t' o' _ H. exact (ti_hold _ _ _ (inv_thr w I t') o' H).
+  - intros t' o' b c n H. destruct (ti_win _ _ _ (inv_thr w I t') o' b c H) as (Wi' & _).
+    assert (o' <> o) by (intros ->; congruence). rewrite fupd_other; auto.
+  - rewrite Hpc in *. split; cbn [pc cur returned with_pc once mu wins fbeg completed slot_of cfg]; try discriminate; auto.
+    + intros _. rewrite T1 by discriminate. reflexivity.
+    + intros o' b c E. injection E as <- <- <-. rewrite fupd_same, Fb. auto.
+  - intros s h Hs. destruct (Nat.eq_dec h t) as [->|n]; [left|right; auto].
+    destruct (inv_mu w I s t Hs) as [_ (o' & Ho & Hsl)]. rewrite Hpc in Ho. discriminate.
+  - intros o'. destruct (Nat.eq_dec o' o) as [->|n].
+    + apply objst_keep1; auto. intros b c _. cbn. eauto.
+    + apply objst_keep; auto; try (rewrite fupd_other; auto).
+      intros b c H. rewrite Hpc in H. cbn in H. congruence.
+  - apply (inv_early w I).
 Qed.
+
+(* f returns *)
+Lemma inv_fend w t o sp :
+  Inv w -> (t < length (thr w))%nat -> pc (get w t) = OFRun o sp ->
+  Inv (mk_w (cfg w) (once w) (mu w) (wins w) (fbeg w) (fupd (completed w) o true) (early w)
+            (lupd (thr w) t (with_pc (get w t) (if sp then OStore o sp else OWinLock o)))).
+Proof.
+  intros I Hlt Hpc.
+  destruct (inv_thr w I t) as [T1 T2 T3 T4 T5 T6].
+  destruct (T6 o true false) as (Wi & O1 & Fb & Co); [rewrite Hpc; reflexivity|].
+  apply inv_update; auto.
+  - intros t' o' _ H. exact (ti_hold _ _ _ (inv_thr w I t') o' H).
+  - intros t' o' b c n H. destruct (ti_win _ _ _ (inv_thr w I t') o' b c H) as (Wi' & _).
+    assert (o' <> o) by (intros ->; congruence). rewrite fupd_other; auto.
+  - rewrite Hpc in *. split; cbn [pc cur returned with_pc once mu wins fbeg completed slot_of cfg]; auto.
+    + intros _. rewrite T1 by discriminate. destruct sp; reflexivity.
+    + intros o'. destruct sp; discriminate.
+    + intros o'. destruct sp; discriminate.
+    + intros o'. destruct sp; discriminate.
+    + intros o' b c E.
+      assert (E' : (o', b, c) = (o, true, true)) by (destruct sp; cbn in E; congruence).
+      injection E' as -> -> ->. rewrite fupd_same, Fb. auto.
+  - intros s h Hs. destruct (Nat.eq_dec h t) as [->|n]; [left|right; auto].
+    destruct (inv_mu w I s t Hs) as [_ (o' & Ho & Hsl)]. rewrite Hpc in Ho. discriminate.
+  - intros o'. destruct (Nat.eq_dec o' o) as [->|n].
+    + apply objst_keep1; auto. intros b c _. destruct sp; cbn; eauto.
+    + apply objst_keep; auto; try (rewrite fupd_other; auto).
+      intros b c H. rewrite Hpc in H. cbn in H. congruence.
+  - apply (inv_early w I).
+Qed.
+
+(* the winner's store of 2 *)
+Lemma inv_store w t o sp :
+  Inv w -> (t < length (thr w))%nat -> pc (get w t) = OStore o sp ->
+  Inv (mk_w (cfg w) (fupd (once w) o 2) (mu w) (wins w) (fbeg w) (completed w) (early w)
+            (lupd (thr w) t (with_pc (get w t) (OWaitLoad o sp)))).
+Proof.
+  intros I Hlt Hpc.
+  destruct (inv_thr w I t) as [T1 T2 T3 T4 T5 T6].
+  destruct (T6 o true true) as (Wi & O1 & Fb & Co); [rewrite Hpc; reflexivity|].
+  apply inv_update; auto.
+  - intros o' H. destruct (Nat.eq_dec o' o) as [->|n]; [apply fupd_same|]. rewrite fupd_other; auto.
+  - intros o' H. destruct (Nat.eq_dec o' o) as [->|n]; [rewrite fupd_same; lia|]. rewrite fupd_other; auto.
+  - intros t' o' _ H. exact (ti_hold _ _ _ (inv_thr w I t') o' H).
+  - intros t' o' b c n H. destruct (ti_win _ _ _ (inv_thr w I t') o' b c H) as (Wi' & _).
+    assert (o' <> o) by (intros ->; congruence). rewrite fupd_other; auto.
+  - rewrite Hpc in *. split; cbn [pc cur returned with_pc once mu wins fbeg completed slot_of cfg].
+    + intros _. rewrite T1 by discriminate. reflexivity.
+    + intros o' Hin. pose proof (T2 o' Hin). destruct (Nat.eq_dec o' o) as [->|n]; [apply fupd_same|]. rewrite fupd_other; auto.
+    + intros o' E. injection E as <-. rewrite fupd_same. lia.
+    + discriminate.
+    + intros o'. destruct sp; cbn; [discriminate|]. intros E. injection E as <-. apply T5. reflexivity.
+    + discriminate.
+  - intros s h Hs. destruct (Nat.eq_dec h t) as [->|n]; [left|right; auto].
+    split; auto. destruct (inv_mu w I s t Hs) as [_ (o' & Ho & Hsl)]. rewrite Hpc in Ho.
+    destruct sp; cbn in Ho; [discriminate|]. injection Ho as <-. exists o. auto.
+  - intros o'. destruct (Nat.eq_dec o' o) as [->|n].
+    + right; right. cbn [once wins fbeg completed]. rewrite fupd_same. split; auto. exists t. auto.
+    + apply objst_keep; auto; try (rewrite fupd_other; auto).
+      intros b c H. rewrite Hpc in H. cbn in H. congruence.
+  - apply (inv_early w I).
+Qed.
+
+(* --- the step --- *)
 
 Lemma inv_begin_call w t : Inv w -> Inv (begin_call w t).
 Proof.
   intros I. destruct (begin_call_cases w t) as [[-> _]|(o&sp&rest&Hpc&Hc&->)]; auto.
   assert (Hlt : (t < length (thr w))%nat) by (apply calls_in_range; rewrite Hc; discriminate).
-  apply inv_local; auto; cbn [pc returned]; try discriminate.
-  - intros; rewrite Hpc; discriminate.
-  - intros o'. apply (inv_ret w I).
+  destruct (inv_thr w I t) as [T1 T2 T3 T4 T5 T6]. unfold set_thr.
+  apply inv_update; auto.
+  - intros t' o' _ H. exact (ti_hold _ _ _ (inv_thr w I t') o' H).
+  - split; cbn [pc cur returned]; try discriminate; auto.
+  - intros s h Hs. right. split; auto. intros ->.
+    destruct (inv_mu w I s t Hs) as [_ (o' & Ho & _)]. rewrite Hpc in Ho. discriminate.
+  - intros o'. apply objst_keep; auto. intros b c H. rewrite Hpc in H. discriminate.
+  - apply (inv_early w I).
 Qed.
 
 Lemma step_core_oob w t : (length (thr w) <= t)%nat -> step_core w t = (w, EvNone).
 Proof. intros H. unfold step_core. rewrite get_oob by auto. reflexivity. Qed.
 
+Ltac zb := repeat match goal with
+  | H : (_ =? _) = true |- _ => apply Z.eqb_eq in H
+  | H : (_ =? _) = false |- _ => apply Z.eqb_neq in H
+  end.
+
+Lemma inv_do_lock w t o p :
+  Inv w -> (t < length (thr w))%nat ->
+  holds_pc (pc (get w t)) = None ->
+  p <> OIdle -> pc_call p = pc_call (pc (get w t)) -> pc (get w t) <> OIdle ->
+  (forall o', loser_pc p = Some o' -> once w o' <> 0) ->
+  (forall o', p <> OFinalUnlock o') ->
+  holds_pc p = Some o ->
+  win_info p = win_info (pc (get w t)) ->
+  Inv (fst (do_lock w t o p)).
+Proof.
+  intros I Hlt Hnh Hp Hc Hni Hl Hf Hh Hw. unfold do_lock.
+  destruct (mu w (slot_of w o)) eqn:Hm; [exact I|].
+  destruct (lockable (cfg w) (slot_of w o)); [|exact I].
+  cbn [fst]. apply inv_lock; auto.
+Qed.
+
+Ltac fin := try (let o' := fresh "o" in let H := fresh "H" in
+                 intros o' H; injection H as <-; first [assumption | lia]).
+Ltac setpc Hpc := apply inv_set_pc; auto; rewrite ?Hpc; try discriminate; try reflexivity; fin.
+
 Lemma inv_step_core w t : Inv w -> Inv (fst (step_core w t)).
 Proof.
   intros I. destruct (lt_dec t (length (thr w))) as [Hlt|Hge].
   2:{ rewrite step_core_oob by lia. exact I. }
+  destruct (inv_thr w I t) as [T1 T2 T3 T4 T5 T6].
   unfold step_core.
-  destruct (pc (get w t)) as [|o sp|o sp|o sp|o sp|o sp|o sp] eqn:Hpc; cbv zeta.
-  - exact I.
-  - destruct (once w o =? 2) eqn:E; cbn [fst].
-    + apply Z.eqb_eq in E. apply inv_do_ret; auto. intros; rewrite Hpc; discriminate.
-    + apply inv_set_pc; auto; try discriminate. intros; rewrite Hpc; discriminate.
-  - destruct (once w o =? 2) eqn:E; cbn [negb andb].
-    + cbn [fst]. apply Z.eqb_eq in E. apply inv_do_ret; auto. intros; rewrite Hpc; discriminate.
-    + destruct (once w o =? 0) eqn:E0; cbn [fst].
-      * apply inv_set_pc; auto; try discriminate. intros; rewrite Hpc; discriminate.
-      * apply Z.eqb_neq in E0. apply inv_set_pc; auto; try discriminate.
-        -- intros; rewrite Hpc; discriminate.
-        -- intros o' sp' H. injection H as <- _. exact E0.
-  - destruct (once w o =? 0) eqn:E0; cbn [fst].
-    + apply Z.eqb_eq in E0. apply inv_cas; auto. intros; rewrite Hpc; discriminate.
-    + apply inv_set_pc; auto; try discriminate. intros; rewrite Hpc; discriminate.
-  - destruct (once w o =? 0) eqn:E0; cbn [fst].
-    + apply inv_set_pc; auto; try discriminate. intros; rewrite Hpc; discriminate.
-    + apply Z.eqb_neq in E0. apply inv_set_pc; auto; try discriminate.
-      * intros; rewrite Hpc; discriminate.
-      * intros o' sp' H. injection H as <- _. exact E0.
-  - cbn [fst]. eapply inv_store; eauto.
-  - destruct (once w o =? 2) eqn:E; cbn [fst].
-    + apply Z.eqb_eq in E. apply inv_do_ret; auto. intros; rewrite Hpc; discriminate.
-    + exact I.
+  destruct (pc (get w t)) as [|o sp|o sp|o z|o sp|o sp|o|o sp|o sp|o|o|o sp|o sp|o|o|o|o|o] eqn:Hpc; cbv zeta.
+  - (* OIdle *) exact I.
+  - (* OEntry *) destruct (once w o =? 2) eqn:E; cbn [fst]; zb.
+    + apply inv_do_ret; auto; rewrite Hpc; reflexivity.
+    + setpc Hpc.
+  - (* OImplLoad *) destruct (once w o =? 2) eqn:E; cbn [negb andb]; zb.
+    + cbn [fst]. apply inv_do_ret; auto; rewrite Hpc; reflexivity.
+    + destruct (once w o =? 0) eqn:E0; zb; destruct sp; cbn [fst]; setpc Hpc.
+  - (* OLock *) apply inv_do_lock; auto; rewrite ?Hpc; try (destruct z; discriminate); try (destruct z; reflexivity).
+    intros o' H. apply T3. destruct z; cbn in H |- *; [discriminate|exact H].
+  - (* OCas *) destruct (once w o =? 0) eqn:E0; cbn [fst]; zb.
+    + apply inv_cas; auto.
+    + setpc Hpc.
+  - (* OReload *) pose proof (T3 o eq_refl) as L. destruct (once w o =? 0) eqn:E0; cbn [fst]; zb; setpc Hpc.
+  - (* OWinUnlock *) unfold do_unlock. cbn [fst]. apply inv_unlock; auto; rewrite ?Hpc; try discriminate; try reflexivity.
+  - (* OFBegin *) cbn [fst]. apply inv_fbegin; auto.
+  - (* OFRun *) destruct (fterm (cfg w) o); cbn [fst]; [apply inv_fend; auto | exact I].
+  - (* OWinLock *) apply inv_do_lock; auto; rewrite ?Hpc; try discriminate; try reflexivity.
+  - (* OBroadcast *) cbn [fst]. setpc Hpc.
+  - (* OStore *) cbn [fst]. apply inv_store; auto.
+  - (* OWaitLoad *) pose proof (T3 o eq_refl) as L.
+    destruct (once w o =? 2) eqn:E; cbn [fst]; zb; destruct sp.
+    + apply inv_do_ret; auto; rewrite Hpc; reflexivity.
+    + setpc Hpc.
+    + setpc Hpc.
+    + setpc Hpc.
+  - (* OCvEnter *) pose proof (T3 o eq_refl) as L.
+    cbn [fst]. apply inv_unlock; auto; rewrite ?Hpc; try discriminate; try reflexivity; fin.
+  - (* OCvWait *) pose proof (T3 o eq_refl) as L. cbn [fst]. setpc Hpc.
+  - (* OCvReacq *) pose proof (T3 o eq_refl) as L.
+    apply inv_do_lock; auto; rewrite ?Hpc; try discriminate; try reflexivity; fin.
+  - (* OSpin *) pose proof (T3 o eq_refl) as L. cbn [fst]. setpc Hpc.
+  - (* OFinalUnlock *) cbn [fst]. apply inv_final; auto.
 Qed.
 
 Lemma length_begin_call w t : length (thr (begin_call w t)) = length (thr w).
 Proof.
   destruct (begin_call_cases w t) as [[-> _]|(o&sp&rest&_&_&->)]; auto.
-  cbn [thr]. apply length_lupd.
+  cbn [thr set_thr]. apply length_lupd.
 Qed.
 
 Lemma inv_step w t : Inv w -> Inv (fst (step w t)).
 Proof. intros I. rewrite step_eq. apply inv_step_core. apply inv_begin_call. exact I. Qed.
 
-Lemma get_init progs t : get (init progs) t = mk_t OIdle (nth t progs []) [].
+Lemma get_init e progs t : get (init e progs) t = mk_t OIdle None (nth t progs []) [].
 Proof.
   unfold get, init. cbn [thr].
-  change dflt with ((fun p => mk_t OIdle p []) []).
+  change dflt with ((fun p => mk_t OIdle None p []) []).
   apply map_nth.
 Qed.
 
-Lemma inv_init progs : Inv (init progs).
+Lemma inv_init e progs : Inv (init e progs).
 Proof.
   split.
-  - intros o. left. repeat split; try reflexivity.
-    intros t sp. rewrite get_init. discriminate.
+  - intros t. rewrite get_init. split; cbn; try discriminate; try contradiction; congruence.
+  - intros s h H. discriminate.
+  - intros o. left. repeat split; reflexivity.
   - reflexivity.
-  - intros t o. rewrite get_init. cbn. contradiction.
-  - intros t o sp. rewrite get_init. discriminate.
 Qed.
 
 Lemma inv_run sched : forall w, Inv w -> Inv (run w sched).
@@ -374,164 +649,515 @@ Proof.
   apply IH. apply inv_step. exact I.
 Qed.
 
-Lemma inv_reach progs sched : Inv (run (init progs) sched).
+Lemma inv_reach e progs sched : Inv (run (init e progs) sched).
 Proof. apply inv_run, inv_init. Qed.
 
-(* ---------- the theorems of C07 ---------- *)
-Lemma at_most_once progs sched : forall o, runs (run (init progs) sched) o <= 1.
-Proof.
-  intros o. destruct (inv_obj _ (inv_reach progs sched) o) as [(_&b&_)|[(_&b&_)|(_&b&_)]]; lia.
-Qed.
+(* ---------- the theorems of C07: safety ---------- *)
+Section Reach.
+  Variables (e : env) (progs : list (list (nat * bool))) (sched : list nat).
+  Let w := run (init e progs) sched.
+  Let I : Inv w := inv_reach e progs sched.
 
-Lemma not_early progs sched :
-  early (run (init progs) sched) = 0 /\
-  forall t o, In o (returned (get (run (init progs) sched) t)) -> completed (run (init progs) sched) o = true.
-Proof.
-  pose proof (inv_reach progs sched) as I. split.
-  - apply (inv_early _ I).
-  - apply (inv_ret _ I).
-Qed.
+  (* who won the CAS, who entered f: at most one thread each, and the same one *)
+  Lemma winners_unique : forall o,
+    (length (wins w o) <= 1)%nat /\ (length (fbeg w o) <= 1)%nat /\ (fbeg w o = [] \/ fbeg w o = wins w o) /\
+    (completed w o = true -> fbeg w o = wins w o /\ length (fbeg w o) = 1%nat).
+  Proof.
+    intros o. destruct (inv_obj w I o) as [(_&a&b&c)|[(_&tw&a&_&bb&cc&Hi)|(_&tw&a&b&c)]].
+    - rewrite a, b, c. cbn. repeat split; auto; discriminate.
+    - destruct (ti_win _ _ _ (inv_thr w I tw) o bb cc Hi) as (_ & _ & Fb & Co).
+      rewrite a, Fb, Co. destruct bb, cc; cbn; repeat split; auto; try discriminate.
+      all: exfalso; destruct (pc (get w tw)); discriminate.
+    - rewrite a, b. cbn. repeat split; auto.
+  Qed.
 
-Lemma exactly_once progs sched :
-  forall t o, In o (returned (get (run (init progs) sched) t)) -> runs (run (init progs) sched) o = 1.
-Proof.
-  pose proof (inv_reach progs sched) as I. intros t o Hin.
-  pose proof (inv_ret _ I t o Hin) as Hc.
-  destruct (inv_obj _ I o) as [(_&_&c&_)|[(_&_&c&_)|(_&b&_)]]; congruence.
-Qed.
+  Lemma at_most_once : forall o, runs w o <= 1.
+  Proof. intros o. unfold runs. destruct (winners_unique o) as (_ & H & _). lia. Qed.
 
-Lemma word_states progs sched : forall o,
-  (once (run (init progs) sched) o = 0 /\ runs (run (init progs) sched) o = 0 /\
-   completed (run (init progs) sched) o = false) \/
-  (once (run (init progs) sched) o = 1 /\ runs (run (init progs) sched) o = 1 /\
-   completed (run (init progs) sched) o = false /\ exists t, winner_of (run (init progs) sched) o t) \/
-  (once (run (init progs) sched) o = 2 /\ runs (run (init progs) sched) o = 1 /\
-   completed (run (init progs) sched) o = true).
-Proof.
-  intros o. destruct (inv_obj _ (inv_reach progs sched) o) as [(a&b&c&_)|[(a&b&c&(t&W&_))|(a&b&c&_)]].
-  - left; auto.
-  - right; left. repeat split; auto. exists t; auto.
-  - right; right; auto.
-Qed.
+  Lemma not_early :
+    early w = 0 /\ forall t o, In o (returned (get w t)) -> completed w o = true /\ once w o = 2.
+  Proof.
+    split; [apply (inv_early w I)|]. intros t o Hin.
+    pose proof (ti_ret _ _ _ (inv_thr w I t) o Hin) as H2. split; auto. apply done_completed; auto.
+  Qed.
 
-(* extra: the winner is unique, and nobody is between CAS and store unless the word is 1 *)
-Lemma winner_unique progs sched : forall o t1 t2,
-  winner_of (run (init progs) sched) o t1 -> winner_of (run (init progs) sched) o t2 -> t1 = t2.
-Proof.
-  intros o t1 t2 [sp1 W1] [sp2 W2].
-  destruct (inv_obj _ (inv_reach progs sched) o) as [(_&_&_&d)|[(_&_&_&(t&_&U))|(_&_&_&d)]].
-  - exfalso; eapply d; eauto.
-  - rewrite (U t1), (U t2); auto; eexists; eauto.
-  - exfalso; eapply d; eauto.
-Qed.
+  (* the order of the events on one object, as the states they leave behind: the word is 2 only after f has returned,
+     f has returned only after it was entered, it was entered only by the thread that won the CAS *)
+  Lemma order_of_events : forall o,
+    (once w o = 2 -> completed w o = true) /\
+    (completed w o = true -> exists tw, fbeg w o = [tw] /\ wins w o = [tw]) /\
+    (fbeg w o <> [] -> exists tw, fbeg w o = [tw] /\ wins w o = [tw] /\ once w o <> 0).
+  Proof.
+    intros o. split; [apply done_completed; auto|].
+    destruct (inv_obj w I o) as [(z&a&b&c)|[(z&tw&a&_&bb&cc&Hi)|(z&tw&a&b&c)]].
+    - rewrite b, c. split; [discriminate | congruence].
+    - destruct (ti_win _ _ _ (inv_thr w I tw) o bb cc Hi) as (_ & _ & Fb & Co).
+      rewrite a, Fb, Co. split.
+      + intros ->. destruct bb; [eauto|]. destruct (pc (get w tw)); discriminate.
+      + destruct bb; [|congruence]. intros _. exists tw. repeat split; auto. lia.
+    - rewrite a, b. split; intros _; exists tw; repeat split; auto. lia.
+  Qed.
 
-Lemma winner_word progs sched : forall o t,
-  winner_of (run (init progs) sched) o t -> once (run (init progs) sched) o = 1.
-Proof.
-  intros o t [sp W].
-  destruct (inv_obj _ (inv_reach progs sched) o) as [(_&_&_&d)|[(a&_)|(_&_&_&d)]]; auto;
-    exfalso; eapply d; eauto.
-Qed.
+  Lemma exactly_once : forall t o, In o (returned (get w t)) -> runs w o = 1.
+  Proof.
+    intros t o Hin. destruct not_early as [_ H]. destruct (H t o Hin) as [Hc _].
+    destruct (order_of_events o) as (_ & H2 & _). destruct (H2 Hc) as (tw & Fb & _).
+    unfold runs. rewrite Fb. reflexivity.
+  Qed.
 
-Lemma done_nonblocking_gen w t o sp rest :
-  pc (get w t) = OIdle -> calls (get w t) = (o, sp) :: rest -> once w o = 2 ->
-  pc (get (fst (step w t)) t) = OIdle /\ In o (returned (get (fst (step w t)) t)) /\ snd (step w t) = EvLoad 1 2.
-Proof.
-  intros Hpc Hc H2.
-  assert (Hlt : (t < length (thr w))%nat) by (apply calls_in_range; rewrite Hc; discriminate).
-  rewrite step_eq.
-  destruct (begin_call_cases w t) as [[_ [H|H]]|(o'&sp'&rest'&_&Hc'&Hb)]; try congruence.
-  rewrite Hc in Hc'. injection Hc' as <- <- <-. rewrite Hb.
-  set (w1 := mk_w _ _ _ _ _).
-  assert (G1 : get w1 t = mk_t (OEntry o sp) rest (returned (get w t))) by (apply get_upd_same; auto).
-  assert (L1 : (t < length (thr w1))%nat) by (unfold w1; cbn [thr]; rewrite length_lupd; auto).
-  unfold step_core. rewrite G1. cbn [pc]. cbv zeta.
-  change (once w1 o) with (once w o). rewrite H2. cbn [Z.eqb Pos.eqb fst snd].
-  rewrite get_ret_same by auto. cbn [pc returned].
-  repeat split; auto. left; auto.
-Qed.
+  Lemma winner_is_unique : forall o t1 t2, winner_of w o t1 -> winner_of w o t2 -> t1 = t2.
+  Proof.
+    intros o t1 t2 W1 W2. apply win_pc_info in W1, W2.
+    destruct W1 as (b1 & c1 & W1), W2 as (b2 & c2 & W2).
+    destruct (ti_win _ _ _ (inv_thr w I t1) o b1 c1 W1) as (A1 & _).
+    destruct (ti_win _ _ _ (inv_thr w I t2) o b2 c2 W2) as (A2 & _). congruence.
+  Qed.
 
-Lemma done_nonblocking progs sched : forall t o sp rest,
-  pc (get (run (init progs) sched) t) = OIdle -> calls (get (run (init progs) sched) t) = (o, sp) :: rest ->
-  once (run (init progs) sched) o = 2 ->
-  pc (get (fst (step (run (init progs) sched) t)) t) = OIdle /\
-  In o (returned (get (fst (step (run (init progs) sched) t)) t)) /\
-  snd (step (run (init progs) sched) t) = EvLoad 1 2.
-Proof. intros. eapply done_nonblocking_gen; eauto. Qed.
+  Lemma word_states : forall o,
+    (once w o = 0 /\ wins w o = [] /\ fbeg w o = [] /\ completed w o = false /\ forall t, ~ winner_of w o t) \/
+    (once w o = 1 /\ exists tw, wins w o = [tw] /\ winner_of w o tw /\ (forall t, winner_of w o t -> t = tw) /\
+                     (fbeg w o = [] \/ fbeg w o = [tw])) \/
+    (once w o = 2 /\ (exists tw, wins w o = [tw] /\ fbeg w o = [tw]) /\ completed w o = true /\ forall t, ~ winner_of w o t).
+  Proof.
+    intros o.
+    assert (NW : once w o <> 1 -> forall t, ~ winner_of w o t).
+    { intros H t W. apply win_pc_info in W. destruct W as (b & c & W). apply H. eapply win_once1; eauto. }
+    destruct (inv_obj w I o) as [(z&a&b&c)|[(z&tw&a&r&bb&cc&Hi)|(z&tw&a&b&c)]].
+    - left. repeat split; auto. apply NW. lia.
+    - right; left. split; auto. exists tw.
+      assert (W : winner_of w o tw) by (apply win_pc_info; eauto).
+      repeat split; auto.
+      + intros t Wt. eapply winner_is_unique; eauto.
+      + destruct (ti_win _ _ _ (inv_thr w I tw) o bb cc Hi) as (_ & _ & Fb & _). destruct bb; auto.
+    - right; right. repeat split; eauto. apply NW. lia.
+  Qed.
 
-(* every step of an in-range thread that is not a fruitless re-read changes the thread's own record *)
-Lemma core_changes w t :
-  (t < length (thr w))%nat -> pc (get w t) <> OIdle ->
-  (forall o sp, pc (get w t) = OWaitLoad o sp -> once w o = 2) ->
-  get (fst (step_core w t)) t <> get w t.
-Proof.
-  intros Hlt Hni Hwl G. apply (f_equal pc) in G. revert G.
-  unfold step_core.
-  destruct (pc (get w t)) as [|o sp|o sp|o sp|o sp|o sp|o sp] eqn:Hpc; cbv zeta.
-  - congruence.
-  - destruct (once w o =? 2); cbn [fst];
-      rewrite ?get_ret_same, ?get_set_pc_same by auto; cbn [pc]; discriminate.
-  - destruct (once w o =? 2); cbn [negb andb]; [|destruct (once w o =? 0)]; cbn [fst];
-      rewrite ?get_ret_same, ?get_set_pc_same by auto; cbn [pc]; discriminate.
-  - destruct (once w o =? 0); cbn [fst];
-      rewrite ?get_upd_same, ?get_set_pc_same by auto; cbn [pc]; discriminate.
-  - destruct (once w o =? 0); cbn [fst];
-      rewrite ?get_set_pc_same by auto; cbn [pc]; discriminate.
-  - cbn [fst]. rewrite get_upd_same by auto. cbn [pc]. discriminate.
-  - rewrite (Hwl o sp eq_refl). cbn [Z.eqb Pos.eqb fst].
-    rewrite get_ret_same by auto. cbn [pc]. discriminate.
-Qed.
+  (* mutual exclusion on the shared internal lock, whatever the map once -> slot *)
+  Lemma once_mu_exclusive : forall t1 t2 o1 o2,
+    holds_pc (pc (get w t1)) = Some o1 -> holds_pc (pc (get w t2)) = Some o2 ->
+    slot_of w o1 = slot_of w o2 -> t1 = t2.
+  Proof.
+    intros t1 t2 o1 o2 H1 H2 E.
+    pose proof (ti_hold _ _ _ (inv_thr w I t1) o1 H1) as M1.
+    pose proof (ti_hold _ _ _ (inv_thr w I t2) o2 H2) as M2. rewrite E in M1. congruence.
+  Qed.
 
-Lemma step_changes w t :
-  (t < length (thr w))%nat -> unfinished w t ->
-  (forall o sp, pc (get w t) = OWaitLoad o sp -> once w o = 2) ->
-  productive w t.
-Proof.
-  intros Hlt Hu Hwl E.
-  assert (G : get (fst (step w t)) t = get w t) by (rewrite E; reflexivity).
-  clear E. rewrite step_eq in G.
-  destruct (begin_call_cases w t) as [[Hb Hc]|(o&sp&rest&Hpc&Hc&Hb)].
-  - rewrite Hb in G. revert G. apply core_changes; auto.
-    destruct Hu as [|Hu]; auto. destruct Hc as [|Hc]; auto; congruence.
-  - rewrite Hb in G. revert G.
-    set (w1 := mk_w _ _ _ _ _).
-    assert (G1 : get w1 t = mk_t (OEntry o sp) rest (returned (get w t))) by (apply get_upd_same; auto).
+  Lemma holder_is_inside : forall s h, mu w s = Some h ->
+    exists o, holds_pc (pc (get w h)) = Some o /\ slot_of w o = s /\ cur (get w h) = Some (o, false).
+  Proof.
+    intros s h H. destruct (inv_mu w I s h H) as [_ (o & Ho & Hs)]. exists o. repeat split; auto.
+    assert (Hn : pc (get w h) <> OIdle) by (intros E; rewrite E in Ho; discriminate).
+    rewrite (ti_cur _ _ _ (inv_thr w I h) Hn).
+    destruct (pc (get w h)) as [|? []|? []|? []|? []|? []|?|? []|? []|?|?|? []|? []|?|?|?|?|?];
+      cbn in Ho |- *; try discriminate; injection Ho as <-; reflexivity.
+  Qed.
+
+  (* the lock and the condition variable are touched only by a blocking call *)
+  Lemma lock_events_blocking : forall t, lock_ev (snd (step w t)) = true ->
+    exists o, lock_pc (pc (get w t)) = Some o /\ cur (get w t) = Some (o, false).
+  Proof.
+    intros t. rewrite step_eq.
+    destruct (begin_call_cases w t) as [[-> _]|(o&sp&rest&Hpc&Hc&->)].
+    - unfold step_core.
+      assert (Hcur := ti_cur _ _ _ (inv_thr w I t)).
+      destruct (pc (get w t)) as [|o sp|o sp|o z|o sp|o sp|o|o sp|o sp|o|o|o sp|o sp|o|o|o|o|o] eqn:Hpc; cbv zeta;
+        unfold do_lock, do_unlock;
+        repeat match goal with |- context [if ?c then _ else _] => destruct c
+                          | |- context [match mu ?a ?b with _ => _ end] => destruct (mu a b) end;
+        cbn [snd lock_ev]; try discriminate; intros _; exists o; (split; [reflexivity|]);
+        rewrite Hcur by discriminate; reflexivity.
+    - assert (Hlt : (t < length (thr w))%nat) by (apply calls_in_range; rewrite Hc; discriminate).
+      unfold step_core, set_thr. rewrite get_upd_same by auto. cbn [pc]. cbv zeta.
+      destruct (_ =? 2); cbn; discriminate.
+  Qed.
+
+  (* a call on a once that is done: one load of the word, then the return -- no lock, no wait, nothing else changes *)
+  Lemma done_nonblocking : forall t o sp rest,
+    pc (get w t) = OIdle -> calls (get w t) = (o, sp) :: rest -> once w o = 2 ->
+    snd (step w t) = EvLoad 1 2 /\
+    pc (get (fst (step w t)) t) = OIdle /\ calls (get (fst (step w t)) t) = rest /\
+    returned (get (fst (step w t)) t) = o :: returned (get w t) /\
+    mu (fst (step w t)) = mu w /\ once (fst (step w t)) = once w /\
+    forall t', t' <> t -> get (fst (step w t)) t' = get w t'.
+  Proof.
+    intros t o sp rest Hpc Hc H2.
+    assert (Hlt : (t < length (thr w))%nat) by (apply calls_in_range; rewrite Hc; discriminate).
+    rewrite step_eq.
+    destruct (begin_call_cases w t) as [[_ [H|H]]|(o'&sp'&rest'&_&Hc'&Hb)]; try congruence.
+    rewrite Hc in Hc'. injection Hc' as <- <- <-. rewrite Hb. unfold set_thr.
+    set (w1 := mk_w _ _ _ _ _ _ _ _).
+    assert (G1 : get w1 t = mk_t (OEntry o sp) (Some (o, sp)) rest (returned (get w t))) by (apply get_upd_same; auto).
     assert (L1 : (t < length (thr w1))%nat) by (unfold w1; cbn [thr]; rewrite length_lupd; auto).
     unfold step_core. rewrite G1. cbn [pc]. cbv zeta.
-    destruct (once w1 o =? 2); cbn [fst]; intros G.
-    + rewrite get_ret_same in G by auto. rewrite G1 in G. cbn [calls returned] in G.
-      apply (f_equal calls) in G. cbn [calls] in G. rewrite Hc in G.
-      symmetry in G. revert G. apply cons_neq.
-    + rewrite get_set_pc_same in G by auto. apply (f_equal pc) in G. cbn [pc] in G. congruence.
-Qed.
+    change (once w1 o) with (once w o). rewrite H2. cbn [Z.eqb Pos.eqb fst snd].
+    rewrite get_ret_same by auto. rewrite G1. cbn [pc calls returned].
+    repeat split; auto.
+    intros t' n. unfold ret. rewrite get_upd_other by auto. unfold w1. rewrite get_upd_other by auto. reflexivity.
+  Qed.
 
-Lemma no_stuck_gen w t :
-  Inv w -> (t < length (thr w))%nat -> unfinished w t -> exists t', productive w t'.
+  (* the timed wait of a blocking loser ends by the loser's own step, whatever the others do or have done
+     (in particular when the winner was a SPINNING call, which does not broadcast) *)
+  Lemma cvwait_times_out : forall t o, pc (get w t) = OCvWait o ->
+    pc (get (fst (step w t)) t) = OCvReacq o /\ snd (step w t) = EvCvEnd (slot_of w o).
+  Proof.
+    intros t o Hpc.
+    assert (Hlt : (t < length (thr w))%nat) by (apply pc_in_range; rewrite Hpc; discriminate).
+    rewrite step_eq. destruct (begin_call_cases w t) as [[-> _]|(o'&sp'&rest'&Hi&_)]; [|congruence].
+    unfold step_core. rewrite Hpc. cbn [fst snd]. rewrite get_set_pc_same by auto. auto.
+  Qed.
+End Reach.
+
+(* ---------- progress ---------- *)
+Fixpoint lsum (f : tstate -> nat) (l : list tstate) : nat :=
+  match l with [] => O | x :: l => (f x + lsum f l)%nat end.
+
+Lemma rank_lsum w : rank w = lsum (trank w) (thr w).
+Proof. unfold rank. induction (thr w) as [|x l IH]; cbn [fold_right lsum]; congruence. Qed.
+
+Lemma lsum_lt f g : forall l l' t,
+  length l' = length l -> (t < length l)%nat ->
+  (forall i, i <> t -> (i < length l)%nat -> (g (nth i l' dflt) <= f (nth i l dflt))%nat) ->
+  (g (nth t l' dflt) < f (nth t l dflt))%nat ->
+  (lsum g l' < lsum f l)%nat.
 Proof.
-  intros I Hlt Hu.
-  destruct (pc (get w t)) as [|o sp|o sp|o sp|o sp|o sp|o sp] eqn:Hpc;
-    try (exists t; apply step_changes; auto; intros ? ? H; rewrite Hpc in H; discriminate).
-  destruct (Z.eq_dec (once w o) 2) as [H2|H2].
-  - exists t. apply step_changes; auto. intros o' sp' H. rewrite Hpc in H. injection H as <- _. exact H2.
-  - pose proof (inv_wait w I t o sp Hpc) as H0.
-    destruct (inv_obj w I o) as [(a&_)|[(_&_&_&(t1&[sp1 W]&_))|(a&_)]]; try contradiction.
-    exists t1. apply step_changes.
-    + apply pc_in_range. rewrite W. discriminate.
-    + left. rewrite W. discriminate.
-    + intros o' sp' H. rewrite W in H. discriminate.
+  assert (LE : forall l l', length l' = length l ->
+            (forall i, (i < length l)%nat -> (g (nth i l' dflt) <= f (nth i l dflt))%nat) -> (lsum g l' <= lsum f l)%nat).
+  { induction l as [|x l IH]; intros [|x' l'] Hl H; cbn in *; try lia.
+    pose proof (H O ltac:(lia)) as H0. cbn in H0.
+    assert (lsum g l' <= lsum f l)%nat; [|lia].
+    apply IH; [lia|]. intros i Hi. apply (H (S i)). lia. }
+  induction l as [|x l IH]; intros [|x' l'] t Hl Ht H Hs; cbn in *; try lia.
+  destruct t as [|t].
+  - assert (lsum g l' <= lsum f l)%nat; [|lia].
+    apply LE; [lia|]. intros i Hi. apply (H (S i)); lia.
+  - pose proof (H O ltac:(lia) ltac:(lia)) as H0. cbn in H0.
+    assert (lsum g l' < lsum f l)%nat; [|lia].
+    apply (IH l' t); try lia; auto.
+    intros i Hn Hi. apply (H (S i)); lia.
 Qed.
 
-Lemma no_stuck progs sched : forall t,
-  (t < length (thr (run (init progs) sched)))%nat -> unfinished (run (init progs) sched) t ->
-  exists t', productive (run (init progs) sched) t'.
-Proof. intros t. apply no_stuck_gen. apply inv_reach. Qed.
+Lemma stage_mono p : (stage true p <= stage false p)%nat.
+Proof. destruct p as [|? ?|? ?|? ?|? ?|? ?|?|? ?|? ?|?|?|? ?|? []|?|?|?|?|?]; cbn; lia. Qed.
 
-(* two callers on one word, racing: thread 0 wins the CAS, thread 1 loses it, re-reads 1, waits once in vain,
+Lemma stage_is2_mono w w' p :
+  (forall o, once w o = 2 -> once w' o = 2) -> (stage (is2 w' p) p <= stage (is2 w p) p)%nat.
+Proof.
+  intros H. unfold is2. destruct (pc_obj p) as [o|]; [|lia].
+  destruct (once w o =? 2) eqn:E.
+  - apply Z.eqb_eq in E. rewrite (H o E). cbn. lia.
+  - destruct (once w' o =? 2); [apply stage_mono | lia].
+Qed.
+
+(* thread t replaces its record by one of smaller rank, and no word leaves the value 2: the rank decreases *)
+Lemma rank_update w t on' mu' wi' fb' co' ea' s' :
+  (t < length (thr w))%nat ->
+  (forall o, once w o = 2 -> on' o = 2) ->
+  (trank (mk_w (cfg w) on' mu' wi' fb' co' ea' (lupd (thr w) t s')) s' < trank w (get w t))%nat ->
+  (rank (mk_w (cfg w) on' mu' wi' fb' co' ea' (lupd (thr w) t s')) < rank w)%nat.
+Proof.
+  intros Hlt H2 Hs. rewrite !rank_lsum. cbn [thr].
+  apply (lsum_lt _ _ (thr w) (lupd (thr w) t s') t); auto.
+  - apply length_lupd.
+  - intros i n Hi. rewrite nth_lupd_other by auto. unfold trank.
+    pose proof (stage_is2_mono w (mk_w (cfg w) on' mu' wi' fb' co' ea' (lupd (thr w) t s')) (pc (nth i (thr w) dflt)) H2). lia.
+  - rewrite nth_lupd_same by auto. exact Hs.
+Qed.
+
+Lemma rank_le_update w t on' mu' wi' fb' co' ea' s' :
+  (t < length (thr w))%nat ->
+  (forall o, once w o = 2 -> on' o = 2) ->
+  (trank (mk_w (cfg w) on' mu' wi' fb' co' ea' (lupd (thr w) t s')) s' < trank w (get w t))%nat ->
+  (rank (mk_w (cfg w) on' mu' wi' fb' co' ea' (lupd (thr w) t s')) <= rank w)%nat.
+Proof. intros. apply Nat.lt_le_incl. apply rank_update; auto. Qed.
+
+(* a thread whose next step is certain to make progress *)
+Definition goodb (w : world) (t : nat) : bool :=
+  match pc (get w t) with
+  | OIdle => match calls (get w t) with [] => false | _ => true end
+  | OLock o _ | OWinLock o => match mu w (slot_of w o) with None => true | Some _ => false end
+  | OCvReacq o => match mu w (slot_of w o) with None => once w o =? 2 | Some _ => false end
+  | OWaitLoad o true | OCvWait o | OSpin o => once w o =? 2
+  | _ => true
+  end.
+
+Local Arguments Nat.mul : simpl never.
+Ltac rk Hlt := apply rank_update; [exact Hlt | auto | unfold trank; cbn [pc calls with_pc stage is2 pc_obj once]; rewrite ?fupd_same].
+
+Lemma core_decreases w t :
+  Inv w -> env_ok (cfg w) -> (t < length (thr w))%nat -> pc (get w t) <> OIdle -> goodb w t = true ->
+  (rank (fst (step_core w t)) < rank w)%nat.
+Proof.
+  intros I [Hft Hlk] Hlt Hni Hg.
+  destruct (inv_thr w I t) as [T1 T2 T3 T4 T5 T6].
+  unfold goodb in Hg. unfold step_core.
+  destruct (pc (get w t)) as [|o sp|o sp|o z|o sp|o sp|o|o sp|o sp|o|o|o sp|o sp|o|o|o|o|o] eqn:Hpc; cbv zeta.
+  - congruence.
+  - (* OEntry *) destruct (once w o =? 2) eqn:E; cbn [fst]; unfold ret, set_pc, set_thr; rk Hlt.
+    + rewrite Hpc. cbn. lia.
+    + rewrite Hpc. cbn. rewrite ?E. lia.
+  - (* OImplLoad *) destruct (once w o =? 2) eqn:E; cbn [negb andb fst]; unfold ret, set_pc, set_thr.
+    + rk Hlt. rewrite Hpc. cbn. lia.
+    + destruct (once w o =? 0) eqn:E0; destruct sp; cbn [fst]; rk Hlt; rewrite Hpc; cbn; rewrite ?E; lia.
+  - (* OLock *) unfold do_lock. destruct (mu w (slot_of w o)); [discriminate|]. rewrite Hlk. cbn [fst].
+    unfold set_pc, set_thr. rewrite get_set_mu. unfold set_mu. cbn [thr cfg once mu wins fbeg completed early].
+    rk Hlt. rewrite Hpc. destruct z; cbn; destruct (once w o =? 2); lia.
+  - (* OCas *) destruct (once w o =? 0) eqn:E0; cbn [fst]; unfold set_pc, set_thr.
+    + apply rank_update; [exact Hlt| |].
+      * intros o' H. apply Z.eqb_eq in E0. assert (o' <> o) by (intros ->; lia). rewrite fupd_other; auto.
+      * unfold trank. rewrite Hpc. destruct sp; cbn; lia.
+    + rk Hlt. rewrite Hpc. cbn. lia.
+  - (* OReload *) pose proof (T3 o eq_refl) as L. destruct (once w o =? 0) eqn:E0; [apply Z.eqb_eq in E0; lia|].
+    cbn [fst]. unfold set_pc, set_thr. rk Hlt. rewrite Hpc. cbn. destruct (once w o =? 2); destruct sp; lia.
+  - (* OWinUnlock *) unfold do_unlock. cbn [fst]. unfold set_pc, set_thr. rewrite get_set_mu. unfold set_mu. cbn [thr cfg once mu wins fbeg completed early]. rk Hlt. rewrite Hpc. cbn. lia.
+  - (* OFBegin *) cbn [fst]. rk Hlt. rewrite Hpc. cbn. lia.
+  - (* OFRun *) rewrite Hft. cbn [fst]. rk Hlt. rewrite Hpc. destruct sp; cbn; lia.
+  - (* OWinLock *) unfold do_lock. destruct (mu w (slot_of w o)); [discriminate|]. rewrite Hlk. cbn [fst].
+    unfold set_pc, set_thr. rewrite get_set_mu. unfold set_mu. cbn [thr cfg once mu wins fbeg completed early].
+    rk Hlt. rewrite Hpc. cbn. lia.
+  - (* OBroadcast *) cbn [fst]. unfold set_pc, set_thr. rk Hlt. rewrite Hpc. cbn. lia.
+  - (* OStore *) cbn [fst]. apply rank_update; [exact Hlt| |].
+    + intros o' H. destruct (Nat.eq_dec o' o) as [->|n]; [apply fupd_same|rewrite fupd_other; auto].
+    + unfold trank. rewrite Hpc. cbn [pc calls with_pc stage is2 pc_obj once]. rewrite fupd_same. cbn. lia.
+  - (* OWaitLoad *) destruct (once w o =? 2) eqn:E; cbn [fst]; destruct sp; try discriminate;
+      unfold ret, set_pc, set_thr; rk Hlt; rewrite Hpc; cbn; rewrite ?E; lia.
+  - (* OCvEnter *) cbn [fst]. unfold set_pc, set_thr. rewrite get_set_mu. unfold set_mu. cbn [thr cfg once mu wins fbeg completed early]. rk Hlt. rewrite Hpc. cbn.
+    destruct (once w o =? 2); lia.
+  - (* OCvWait *) cbn [fst]. unfold set_pc, set_thr. rk Hlt. rewrite Hpc. cbn. rewrite Hg. lia.
+  - (* OCvReacq *) unfold do_lock. destruct (mu w (slot_of w o)); [discriminate|]. rewrite Hlk. cbn [fst].
+    unfold set_pc, set_thr. rewrite get_set_mu. unfold set_mu. cbn [thr cfg once mu wins fbeg completed early].
+    rk Hlt. rewrite Hpc. cbn. rewrite Hg. lia.
+  - (* OSpin *) cbn [fst]. unfold set_pc, set_thr. rk Hlt. rewrite Hpc. cbn. rewrite Hg. lia.
+  - (* OFinalUnlock *) cbn [fst]. unfold ret. rewrite get_set_mu. unfold set_mu. cbn [thr cfg once mu wins fbeg completed early].
+    rk Hlt. rewrite Hpc. cbn. lia.
+Qed.
+
+Lemma step_decreases w t :
+  Inv w -> env_ok (cfg w) -> goodb w t = true -> (rank (fst (step w t)) < rank w)%nat.
+Proof.
+  intros I He Hg. rewrite step_eq.
+  destruct (begin_call_cases w t) as [[-> Hc]|(o&sp&rest&Hpc&Hc&Hb)].
+  - assert (Hni : pc (get w t) <> OIdle).
+    { intros E. unfold goodb in Hg. rewrite E in Hg. destruct Hc as [Hc|Hc]; [congruence|]. rewrite Hc in Hg. discriminate. }
+    apply core_decreases; auto. apply pc_in_range; auto.
+  - assert (Hlt : (t < length (thr w))%nat) by (apply calls_in_range; rewrite Hc; discriminate).
+    assert (I1 : Inv (begin_call w t)) by (apply inv_begin_call; auto).
+    rewrite Hb in *. unfold set_thr in *.
+    set (w1 := mk_w _ _ _ _ _ _ _ _) in *.
+    assert (G1 : get w1 t = mk_t (OEntry o sp) (Some (o, sp)) rest (returned (get w t))) by (apply get_upd_same; auto).
+    assert (R1 : (rank w1 <= rank w)%nat).
+    { apply rank_le_update; auto. unfold trank. rewrite Hpc, Hc. cbn. lia. }
+    assert (R2 : (rank (fst (step_core w1 t)) < rank w1)%nat).
+    { apply core_decreases; auto.
+      - unfold w1; cbn [thr]; rewrite length_lupd; auto.
+      - rewrite G1. discriminate.
+      - unfold goodb. rewrite G1. reflexivity. }
+    lia.
+Qed.
+
+Lemma goodb_in_range w t : goodb w t = true -> (t < length (thr w))%nat.
+Proof.
+  intros H. destruct (lt_dec t (length (thr w))) as [|n]; auto.
+  unfold goodb in H. rewrite get_oob in H by lia. discriminate.
+Qed.
+
+(* in every world satisfying the invariant, either everybody has finished or some thread is certain to make progress *)
+Lemma good_or_done w : Inv w -> all_done w \/ exists t, goodb w t = true.
+Proof.
+  intros I.
+  destruct (existsb (goodb w) (seq 0 (length (thr w)))) eqn:Ex.
+  { right. apply existsb_exists in Ex. destruct Ex as (t & _ & H). eauto. }
+  left.
+  assert (NG : forall t, goodb w t = false).
+  { intros t. destruct (goodb w t) eqn:G; auto.
+    assert (existsb (goodb w) (seq 0 (length (thr w))) = true); [|congruence].
+    apply existsb_exists. exists t. split; auto. apply in_seq. pose proof (goodb_in_range w t G). lia. }
+  (* no lock is held: a holder would be certain to make progress *)
+  assert (Free : forall s, mu w s = None).
+  { intros s. destruct (mu w s) as [h|] eqn:M; auto. exfalso.
+    destruct (inv_mu w I s h M) as [_ (o & Ho & _)]. pose proof (NG h) as G. unfold goodb in G.
+    destruct (pc (get w h)) as [|? []|? []|? []|? []|? []|?|? []|? []|?|?|? []|? []|?|?|?|?|?]; cbn in Ho; discriminate. }
+  (* nobody is a winner: a winner would be certain to make progress *)
+  assert (NoWin : forall t o b c, win_info (pc (get w t)) = Some (o, b, c) -> False).
+  { intros t o b c H. pose proof (NG t) as G. unfold goodb in G.
+    destruct (pc (get w t)) as [|? []|? []|? []|? []|? []|?|? []|? []|?|?|? []|? []|?|?|?|?|?] eqn:Hpc; cbn in H; try discriminate.
+    rewrite Free in G. discriminate. }
+  (* a waiting loser has a winner *)
+  assert (Lose : forall t o, loser_pc (pc (get w t)) = Some o -> once w o = 2).
+  { intros t o H. pose proof (ti_lose _ _ _ (inv_thr w I t) o H) as H0.
+    destruct (inv_obj w I o) as [(a&_)|[(_&tw&_&_&b&c&Hi)|(a&_)]]; auto; [contradiction|].
+    exfalso. eapply NoWin; eauto. }
+  intros t. pose proof (NG t) as G. unfold goodb in G.
+  destruct (pc (get w t)) as [|o sp|o sp|o z|o sp|o sp|o|o sp|o sp|o|o|o sp|o sp|o|o|o|o|o] eqn:Hpc; try discriminate.
+  - destruct (calls (get w t)); [auto | discriminate].
+  - rewrite Free in G. discriminate.
+  - rewrite Free in G. discriminate.
+  - destruct sp; [|discriminate]. pose proof (Lose t o) as L. rewrite Hpc in L. rewrite (L eq_refl) in G. discriminate.
+  - pose proof (Lose t o) as L. rewrite Hpc in L. rewrite (L eq_refl) in G. discriminate.
+  - pose proof (Lose t o) as L. rewrite Hpc in L. rewrite (L eq_refl), Free in G. discriminate.
+  - pose proof (Lose t o) as L. rewrite Hpc in L. rewrite (L eq_refl) in G. discriminate.
+Qed.
+
+Lemma cfg_step_core w t : cfg (fst (step_core w t)) = cfg w.
+Proof.
+  unfold step_core, do_lock, do_unlock.
+  destruct (pc (get w t)); cbv zeta;
+    repeat match goal with |- context [if ?c then _ else _] => destruct c
+                      | |- context [match mu ?a ?b with _ => _ end] => destruct (mu a b) end; reflexivity.
+Qed.
+Lemma cfg_step w t : cfg (fst (step w t)) = cfg w.
+Proof.
+  rewrite step_eq, cfg_step_core. unfold begin_call.
+  destruct (pc (get w t)); try reflexivity. destruct (calls (get w t)) as [|[? ?] ?]; reflexivity.
+Qed.
+Lemma cfg_run sched : forall w, cfg (run w sched) = cfg w.
+Proof.
+  unfold run. induction sched as [|t sched IH]; intros w; cbn [fold_left]; auto.
+  rewrite IH. apply cfg_step.
+Qed.
+
+Lemma run_app w s1 s2 : run w (s1 ++ s2) = run (run w s1) s2.
+Proof. unfold run. apply fold_left_app. Qed.
+
+(* from every world satisfying the invariant the system can run to completion, in at most [rank w] steps *)
+Lemma can_finish : forall n w, (rank w <= n)%nat -> Inv w -> env_ok (cfg w) ->
+  exists sched', (length sched' <= n)%nat /\ all_done (run w sched').
+Proof.
+  induction n as [|n IH]; intros w Hr I He.
+  - destruct (good_or_done w I) as [D|(t & G)].
+    + exists []. split; auto.
+    + pose proof (step_decreases w t I He G). lia.
+  - destruct (good_or_done w I) as [D|(t & G)].
+    + exists []. split; [cbn; lia | auto].
+    + pose proof (step_decreases w t I He G) as Hd.
+      destruct (IH (fst (step w t))) as (s' & Hl & Hd'); [lia | apply inv_step; auto | rewrite cfg_step; auto |].
+      exists (t :: s'). split; [cbn; lia | exact Hd'].
+Qed.
+
+Lemma no_stuck e progs sched : env_ok e ->
+  exists sched', (length sched' <= rank (run (init e progs) sched))%nat /\ all_done (run (init e progs) (sched ++ sched')).
+Proof.
+  intros He.
+  destruct (can_finish (rank (run (init e progs) sched)) (run (init e progs) sched)) as (s' & Hl & Hd); auto.
+  - apply inv_reach.
+  - rewrite cfg_run. exact He.
+  - exists s'. rewrite run_app. auto.
+Qed.
+
+Lemma progress e progs sched : env_ok e ->
+  all_done (run (init e progs) sched) \/
+  exists t, (rank (fst (step (run (init e progs) sched) t)) < rank (run (init e progs) sched))%nat.
+Proof.
+  intros He. destruct (good_or_done _ (inv_reach e progs sched)) as [D|(t & G)]; [left; auto|right].
+  exists t. apply step_decreases; auto; [apply inv_reach | rewrite cfg_run; exact He].
+Qed.
+
+(* ---------- the hypotheses of no_stuck are necessary ---------- *)
+Lemma step_core_other w t t' : t' <> t -> get (fst (step_core w t)) t' = get w t'.
+Proof.
+  intros n. unfold step_core, do_lock, do_unlock, ret, set_pc, set_thr, set_mu.
+  destruct (pc (get w t)); cbv zeta;
+    repeat match goal with |- context [if ?c then _ else _] => destruct c
+                      | |- context [match mu ?a ?b with _ => _ end] => destruct (mu a b) end;
+    cbn [fst]; try reflexivity; unfold get; cbn [thr]; apply nth_lupd_other; auto.
+Qed.
+
+Lemma step_other w t t' : t' <> t -> get (fst (step w t)) t' = get w t'.
+Proof.
+  intros n. rewrite step_eq, step_core_other by auto.
+  destruct (begin_call_cases w t) as [[-> _]|(o&sp&rest&_&_&->)]; auto.
+  unfold set_thr, get; cbn [thr]. apply nth_lupd_other; auto.
+Qed.
+
+(* a once-function that does not return keeps its caller inside it for ever *)
+Lemma f_stuck_forever w t o sp : fterm (cfg w) o = false -> pc (get w t) = OFRun o sp ->
+  forall sched', get (run w sched') t = get w t.
+Proof.
+  intros Hf Hpc sched'. revert w Hf Hpc. unfold run.
+  induction sched' as [|t' s IH]; intros w Hf Hpc; cbn [fold_left]; auto.
+  assert (E : get (fst (step w t')) t = get w t).
+  { destruct (Nat.eq_dec t t') as [<-|n]; [|apply step_other; auto].
+    rewrite step_eq. destruct (begin_call_cases w t) as [[-> _]|(o'&sp'&rest&Hi&_)]; [|congruence].
+    unfold step_core. rewrite Hpc, Hf. reflexivity. }
+  rewrite IH; auto; [rewrite cfg_step; auto | rewrite E; auto].
+Qed.
+
+(* a once_mu that cannot be obtained keeps a blocking caller in front of it for ever *)
+Lemma lock_stuck_forever w t o z : lockable (cfg w) (slot_of w o) = false -> pc (get w t) = OLock o z ->
+  forall sched', get (run w sched') t = get w t.
+Proof.
+  intros Hf Hpc sched'. revert w Hf Hpc. unfold run.
+  induction sched' as [|t' s IH]; intros w Hf Hpc; cbn [fold_left]; auto.
+  assert (E : get (fst (step w t')) t = get w t).
+  { destruct (Nat.eq_dec t t') as [<-|n]; [|apply step_other; auto].
+    rewrite step_eq. destruct (begin_call_cases w t) as [[-> _]|(o'&sp'&rest&Hi&_)]; [|congruence].
+    unfold step_core, do_lock. rewrite Hpc, Hf. destruct (mu w (slot_of w o)); reflexivity. }
+  rewrite IH; auto; [unfold slot_of in *; rewrite cfg_step; auto | rewrite E; auto].
+Qed.
+
+(* ---------- concrete runs ---------- *)
+Definition idle_b (s : tstate) : bool :=
+  match pc s, calls s with OIdle, [] => true | _, _ => false end.
+Lemma all_done_of_b w : forallb idle_b (thr w) = true -> all_done w.
+Proof.
+  intros H t. destruct (lt_dec t (length (thr w))) as [Hlt|Hge].
+  - rewrite forallb_forall in H. specialize (H (get w t) (nth_In _ _ Hlt)).
+    unfold idle_b in H. destruct (pc (get w t)); try discriminate. destruct (calls (get w t)); try discriminate. auto.
+  - rewrite get_oob by lia. auto.
+Qed.
+Definition env_mod64 : env := mk_env (fun o => Nat.modulo o 64) (fun _ => true) (fun _ => true).
+Definition events (w : world) (sched : list nat) : list ev :=
+  snd (fold_left (fun a t => (fst (step (fst a) t), snd a ++ [snd (step (fst a) t)])) sched (w, [])).
+
+(* two callers on one word, racing: thread 0 (blocking) wins the CAS, thread 1 (spinning) loses it, spins once in vain,
    and both return after the store *)
 Lemma example_two_callers : exists progs sched,
-  let w := run (init progs) sched in
-  runs w 0%nat = 1 /\ returned (get w 0%nat) = [0%nat] /\ returned (get w 1%nat) = [0%nat] /\ early w = 0.
+  let w := run (init env_mod64 progs) sched in
+  runs w 0%nat = 1 /\ wins w 0%nat = [0%nat] /\ returned (get w 0%nat) = [0%nat] /\ returned (get w 1%nat) = [0%nat] /\
+  early w = 0 /\ all_done w.
 Proof.
-  exists [[(0%nat, false)]; [(0%nat, true)]], [0;1;0;1;0;1;1;1;0;0;1]%nat.
-  vm_compute. repeat split; reflexivity.
+  exists [[(0%nat, false)]; [(0%nat, true)]], [0;1;0;1;0;0;1;1;1;0;0;0;0;0;0;0;0;1;1]%nat.
+  repeat split; try (vm_compute; reflexivity); apply all_done_of_b; vm_compute; reflexivity.
+Qed.
+
+(* the mix the broadcast does not cover: a SPINNING winner (thread 0; it takes no lock and does not broadcast) beside a
+   BLOCKING loser (thread 1) that goes to sleep on once_cv before the store; the loser's wait ends by its own step
+   (its deadline), it re-acquires once_mu, reads 2, unlocks and returns *)
+Definition mix_progs : list (list (nat * bool)) := [[(0%nat, true)]; [(0%nat, false)]].
+Definition mix_sched : list nat := [0; 0; 0; 1; 1; 1; 1; 1; 0; 0; 0; 0; 1; 1; 1; 1]%nat.
+Lemma example_spin_winner_blocking_loser :
+  let w := run (init env_mod64 mix_progs) mix_sched in
+  events (init env_mod64 mix_progs) mix_sched =
+    [ EvLoad 1 0; EvLoad 11 0; EvCas 12 true;                        (* 0: the spinning call wins *)
+      EvLoad 1 1; EvLoad 11 1; EvLock 0; EvLoad 15 1; EvCvRelease 0; (* 1: the blocking call loses, waits on once_cv *)
+      EvFBegin 0; EvFEnd 0; EvStore 14 2; EvLoad 15 2;               (* 0: f, store of 2 -- no broadcast -- return *)
+      EvCvEnd 0; EvLock 0; EvLoad 15 2; EvUnlock 0 ] /\              (* 1: the timed wait ends, 2 is read, return *)
+  all_done w /\ returned (get w 1%nat) = [0%nat] /\ early w = 0.
+Proof.
+  repeat split; try (vm_compute; reflexivity); apply all_done_of_b; vm_compute; reflexivity.
+Qed.
+
+(* two once objects (indices 0 and 64) that share a once_sync slot: while thread 0, a blocking caller on object 0, is
+   inside the critical section, thread 1's nsync_mu_lock for object 64 does not return; it does once thread 0 has
+   released the lock to run its function; both functions run, both calls return *)
+Definition share_progs : list (list (nat * bool)) := [[(0%nat, false)]; [(64%nat, false)]].
+Definition share_sched : list nat := [0; 0; 0; 1; 1; 1; 0; 0; 1; 1; 1; 1; 1; 0; 1; 1; 1; 1; 1; 0; 0; 0; 0; 0; 0]%nat.
+Lemma example_shared_slot :
+  let w := run (init env_mod64 share_progs) share_sched in
+  firstn 13 (events (init env_mod64 share_progs) share_sched) =
+    [ EvLoad 1 0; EvLoad 11 0; EvLock 0;       (* 0: takes once_mu of slot 0 *)
+      EvLoad 1 0; EvLoad 11 0; EvBlocked 0;    (* 1: object 64, same slot: blocked *)
+      EvCas 12 true; EvUnlock 0;               (* 0: wins, releases the lock for the call of f *)
+      EvLock 0; EvCas 12 true; EvUnlock 0;     (* 1: now obtains it, wins on its own word *)
+      EvFBegin 64; EvFEnd 64 ] /\
+  all_done w /\ runs w 0%nat = 1 /\ runs w 64%nat = 1 /\ early w = 0.
+Proof.
+  repeat split; try (vm_compute; reflexivity); apply all_done_of_b; vm_compute; reflexivity.
+Qed.
+
+(* the once-function of object 0 does not return: its caller stays inside it whatever is scheduled *)
+Lemma example_f_never_returns : forall sched',
+  let e := mk_env (fun o => o) (fun _ => false) (fun _ => true) in
+  pc (get (run (run (init e [[(0%nat, true)]]) [0; 0; 0; 0]%nat) sched') 0%nat) = OFRun 0 true.
+Proof.
+  intros sched' e. rewrite (f_stuck_forever _ 0%nat 0%nat true); reflexivity.
 Qed.
